@@ -80,4 +80,1557 @@ theorem nq_aux_nondigit (l : List UInt8) (n : Nat) (e : Err) (h : ¬ AllDigits l
           exact ⟨by omega, by omega⟩
       simp only [pUInt64Aux, hc', if_true]
 
+/-- what `setQ` computes on a text with a dot: integer part `ip` (no dot in it), the rest `fp` -/
+theorem nq_setQ_dot (pf : PFromBody) (ip fp : List UInt8) (hnd : ∀ c ∈ ip, c ≠ 46) :
+    setQ pf (ip ++ 46 :: fp) =
+      if fp.length ≤ 3 then
+        if ((if (pUInt64Val ip).2 == .ok then pUInt64Val fp else (0, (pUInt64Val ip).2)).2 == .ok) = true then
+          if ((pUInt64Val ip).1 > 1 || (if (pUInt64Val ip).2 == .ok then pUInt64Val fp else (0, (pUInt64Val ip).2)).1 > 999 ||
+              ((pUInt64Val ip).1 == 1 && (if (pUInt64Val ip).2 == .ok then pUInt64Val fp else (0, (pUInt64Val ip).2)).1 > 0)) = true then
+            { pf with paramErr := .valBad, errOffs := trunc16 pf.vstart }
+          else { pf with q := ((pUInt64Val ip).1 * 1000 +
+              (if fp.length == 1 then (if (pUInt64Val ip).2 == .ok then pUInt64Val fp else (0, (pUInt64Val ip).2)).1 * 100
+               else if fp.length == 2 then (if (pUInt64Val ip).2 == .ok then pUInt64Val fp else (0, (pUInt64Val ip).2)).1 * 10
+               else (if (pUInt64Val ip).2 == .ok then pUInt64Val fp else (0, (pUInt64Val ip).2)).1)) % 65536 }
+        else { pf with paramErr := (if (pUInt64Val ip).2 == .ok then pUInt64Val fp else (0, (pUInt64Val ip).2)).2,
+                       errOffs := trunc16 pf.vstart }
+      else { pf with paramErr := .valTooLong, errOffs := trunc16 pf.vend } := by
+  unfold setQ
+  simp only [nq_takeWhile_dot ip fp hnd, List.length_append, List.length_cons, List.take_left']
+  have hdrop : List.drop (ip.length + 1) (ip ++ 46 :: fp) = fp := by
+    rw [List.drop_append, List.drop_eq_nil_of_le (by omega)]
+    simp
+  have hlt : decide (ip.length < ip.length + (fp.length + 1)) = true := by simp
+  have hnd' : ip.length + (fp.length + 1) - (ip.length + 1) = fp.length := by omega
+  have hlen : (ip.length + (fp.length + 1) - ip.length ≤ 4) = (fp.length ≤ 3) := by
+    apply propext; omega
+  simp only [hdrop, hlt, hnd', hlen, Bool.and_true, Bool.true_and]
+
+/-- what `setQ` computes on a text without a dot -/
+theorem nq_setQ_nodot (pf : PFromBody) (ip : List UInt8) (hnd : ∀ c ∈ ip, c ≠ 46) :
+    setQ pf ip =
+      if ((pUInt64Val ip).2 == .ok) = true then
+        if decide ((pUInt64Val ip).1 > 1) = true then { pf with paramErr := .valBad, errOffs := trunc16 pf.vstart }
+        else { pf with q := ((pUInt64Val ip).1 * 1000) % 65536 }
+      else { pf with paramErr := (pUInt64Val ip).2, errOffs := trunc16 pf.vstart } := by
+  unfold setQ
+  simp only [nq_takeWhile_nodot ip hnd, Nat.sub_self, Nat.zero_le, ↓reduceIte, List.take_length, Nat.lt_irrefl,
+    decide_false, Bool.and_false, Bool.false_eq_true]
+  cases h1 : ((pUInt64Val ip).2 == .ok)
+  · simp only [Bool.false_eq_true, ↓reduceIte]
+  · simp only [↓reduceIte, Nat.reduceGT, decide_false, Bool.or_false, Bool.false_and, Bool.false_eq_true, Nat.add_zero]
+
+/-- **accepted**: the value is a `q` text: digits, optionally a dot and at most three digits, value at most 1 -/
+structure NqQText (val ip fp : List UInt8) : Prop where
+  di : AllDigits ip
+  df : AllDigits fp
+  len : fp.length ≤ 3
+  le1 : decOf ip ≤ 1
+  one : decOf ip = 1 → decOf fp = 0
+  shape : (val = ip ∧ fp = []) ∨ val = ip ++ 46 :: fp
+
+theorem nq_decOf_nil : decOf [] = 0 := by unfold decOf; rw [decFrom_nil]
+
+theorem nq_setQ_accept (pf : PFromBody) (val ip fp : List UInt8) (H : NqQText val ip fp) :
+    setQ pf val = { pf with q := qValue ip fp } := by
+  rcases H.shape with ⟨h1, h2⟩ | h1
+  · rw [h1, h2, setQ_int pf ip H.di H.le1]
+    unfold qValue
+    rw [nq_decOf_nil]; simp
+  · rw [h1]; exact setQ_frac pf ip fp H.di H.df H.len H.le1 H.one
+
+/-- more than three bytes after the first dot (whatever they are): "value too long", reported at the END of the value -/
+theorem nq_setQ_long (pf : PFromBody) (ip fp : List UInt8) (hnd : ∀ c ∈ ip, c ≠ 46) (hl : 3 < fp.length) :
+    setQ pf (ip ++ 46 :: fp) = { pf with paramErr := .valTooLong, errOffs := trunc16 pf.vend } := by
+  rw [nq_setQ_dot pf ip fp hnd, if_neg (by omega)]
+
+theorem nq_pU_nondigit (l : List UInt8) (h : ¬ AllDigits l) : (pUInt64Val l).2 = .valNotNumber :=
+  nq_aux_nondigit l 0 .ok h
+
+/-- a byte other than a digit in front of the first dot (or no dot at all): "not a number", reported at the start -/
+theorem nq_setQ_int_nondigit (pf : PFromBody) (ip fp : List UInt8) (hnd : ∀ c ∈ ip, c ≠ 46) (hi : ¬ AllDigits ip)
+    (hl : fp.length ≤ 3) :
+    setQ pf ip = { pf with paramErr := .valNotNumber, errOffs := trunc16 pf.vstart } ∧
+    setQ pf (ip ++ 46 :: fp) = { pf with paramErr := .valNotNumber, errOffs := trunc16 pf.vstart } := by
+  have h1 := nq_pU_nondigit ip hi
+  constructor
+  · rw [nq_setQ_nodot pf ip hnd, h1]; rfl
+  · rw [nq_setQ_dot pf ip fp hnd, if_pos hl, h1]; rfl
+
+/-- an integer part that does not fit in 64 bits: "value too long", reported at the start -/
+theorem nq_setQ_int_huge (pf : PFromBody) (ip fp : List UInt8) (hi : AllDigits ip) (hbig : decOf ip > maxU64)
+    (hl : fp.length ≤ 3) :
+    setQ pf ip = { pf with paramErr := .valTooLong, errOffs := trunc16 pf.vstart } ∧
+    setQ pf (ip ++ 46 :: fp) = { pf with paramErr := .valTooLong, errOffs := trunc16 pf.vstart } := by
+  have h1 := (pUInt64Val_spec ip hi).2 hbig
+  have hnd := nq_digits_nodot ip hi
+  constructor
+  · rw [nq_setQ_nodot pf ip hnd, h1]; rfl
+  · rw [nq_setQ_dot pf ip fp hnd, if_pos hl, h1]; rfl
+
+/-- a byte other than a digit after the first dot (a second dot included): "not a number", reported at the start -/
+theorem nq_setQ_frac_nondigit (pf : PFromBody) (ip fp : List UInt8) (hi : AllDigits ip) (hfit : decOf ip ≤ maxU64)
+    (hf : ¬ AllDigits fp) (hl : fp.length ≤ 3) :
+    setQ pf (ip ++ 46 :: fp) = { pf with paramErr := .valNotNumber, errOffs := trunc16 pf.vstart } := by
+  have h1 := (pUInt64Val_spec ip hi).1 hfit
+  have h2 := nq_pU_nondigit fp hf
+  rw [nq_setQ_dot pf ip fp (nq_digits_nodot ip hi), if_pos hl, h1]
+  simp only [beq_self_eq_true, ↓reduceIte, h2]
+  rfl
+
+/-- a number above 1 (`2`, `1.5`, `1.001`, …): "bad value", reported at the start -/
+theorem nq_setQ_range (pf : PFromBody) (ip fp : List UInt8) (hi : AllDigits ip) (hf : AllDigits fp) (hfit : decOf ip ≤ maxU64)
+    (hl : fp.length ≤ 3) (hbad : decOf ip > 1 ∨ (decOf ip = 1 ∧ decOf fp > 0)) :
+    (decOf ip > 1 → setQ pf ip = { pf with paramErr := .valBad, errOffs := trunc16 pf.vstart }) ∧
+    setQ pf (ip ++ 46 :: fp) = { pf with paramErr := .valBad, errOffs := trunc16 pf.vstart } := by
+  have h1 := (pUInt64Val_spec ip hi).1 hfit
+  have hd := decOf_le3 fp hf hl
+  have h2 := (pUInt64Val_spec fp hf).1 (by unfold maxU64; omega)
+  have hnd := nq_digits_nodot ip hi
+  constructor
+  · intro hgt
+    rw [nq_setQ_nodot pf ip hnd, h1]
+    simp only [beq_self_eq_true, ↓reduceIte, hgt, decide_true]
+  · rw [nq_setQ_dot pf ip fp hnd, if_pos hl, h1]
+    simp only [beq_self_eq_true, ↓reduceIte, h2]
+    have hb : (decide (decOf ip > 1) || decide (decOf fp > 999) || decOf ip == 1 && decide (decOf fp > 0)) = true := by
+      rcases hbad with h | ⟨h, h'⟩
+      · simp [h]
+      · simp [h, h']
+    simp only [hb, ↓reduceIte]
+
+/-- the decomposition of a `q` text is unique: the integer part is everything in front of the first dot -/
+theorem nq_unique (val ip tl ip' fp' : List UInt8) (hv : val = ip ++ tl) (hnd : ∀ c ∈ ip, c ≠ 46)
+    (htl : tl = [] ∨ ∃ fp, tl = 46 :: fp) (H : NqQText val ip' fp') :
+    ip' = ip ∧ ((tl = [] ∧ fp' = []) ∨ tl = 46 :: fp') := by
+  have hnd' := nq_digits_nodot ip' H.di
+  have t1 : val.takeWhile (· != 46) = ip := by
+    rcases htl with h | ⟨fp, h⟩
+    · rw [hv, h, List.append_nil]; exact nq_takeWhile_nodot ip hnd
+    · rw [hv, h]; exact nq_takeWhile_dot ip fp hnd
+  have t2 : val.takeWhile (· != 46) = ip' := by
+    rcases H.shape with ⟨h, _⟩ | h
+    · rw [h]; exact nq_takeWhile_nodot ip' hnd'
+    · rw [h]; exact nq_takeWhile_dot ip' fp' hnd'
+  have hip : ip' = ip := by rw [← t2, t1]
+  refine ⟨hip, ?_⟩
+  rcases H.shape with ⟨h, h2⟩ | h
+  · rw [hip, hv] at h
+    have : tl = [] := by
+      have := congrArg List.length h
+      rw [List.length_append] at this
+      exact List.eq_nil_of_length_eq_zero (by omega)
+    exact Or.inl ⟨this, h2⟩
+  · rw [hip, hv] at h
+    exact Or.inr (List.append_cancel_left h)
+
+/-- **the `q` value, every text**: either the text is a `q` text (`NqQText`: digits, optionally a dot and at most three
+    digits, value at most 1 — the integer part may be empty or have leading zeros) and Q is set to its value in
+    thousandths, nothing else changes; or it is not, Q is left alone and the parameter-error indication is set: one of
+    "not a number", "too long", "bad value" with the offset of the START of the value — except for more than three bytes
+    after the first dot: "too long" with the offset of the END of the value. -/
+theorem nq_setQ_total (pf : PFromBody) (val : List UInt8) :
+    (∃ ip fp, NqQText val ip fp ∧ setQ pf val = { pf with q := qValue ip fp }) ∨
+    ((¬ ∃ ip fp, NqQText val ip fp) ∧
+      ∃ e, (e = .valNotNumber ∨ e = .valTooLong ∨ e = .valBad) ∧
+        (setQ pf val = { pf with paramErr := e, errOffs := trunc16 pf.vstart } ∨
+         (e = .valTooLong ∧ setQ pf val = { pf with paramErr := e, errOffs := trunc16 pf.vend }))) := by
+  obtain ⟨ip, tl, hv, hnd, htl⟩ := nq_split val
+  have huniq := nq_unique val ip tl
+  by_cases hi : AllDigits ip
+  · by_cases hfit : decOf ip ≤ maxU64
+    · rcases htl with h0 | ⟨fp, h0⟩
+      · -- no dot
+        have hval : val = ip := by rw [hv, h0, List.append_nil]
+        by_cases h1 : decOf ip ≤ 1
+        · have H : NqQText val ip [] :=
+            ⟨hi, (fun c hc => by cases hc), by simp, h1, (fun _ => nq_decOf_nil), Or.inl ⟨hval, rfl⟩⟩
+          exact Or.inl ⟨ip, [], H, nq_setQ_accept pf val ip [] H⟩
+        · refine Or.inr ⟨?_, .valBad, Or.inr (Or.inr rfl), Or.inl ?_⟩
+          · rintro ⟨ip', fp', H⟩
+            have := (huniq ip' fp' hv hnd (Or.inl h0) H).1
+            have := H.le1
+            subst ip'; omega
+          · rw [hval]
+            exact (nq_setQ_range pf ip [] hi (fun c hc => by cases hc) hfit (by simp) (Or.inl (by omega))).1 (by omega)
+      · -- a dot
+        have hval : val = ip ++ 46 :: fp := by rw [hv, h0]
+        by_cases hl : fp.length ≤ 3
+        · by_cases hf : AllDigits fp
+          · by_cases hok : decOf ip ≤ 1 ∧ (decOf ip = 1 → decOf fp = 0)
+            · have H : NqQText val ip fp := ⟨hi, hf, hl, hok.1, hok.2, Or.inr hval⟩
+              exact Or.inl ⟨ip, fp, H, nq_setQ_accept pf val ip fp H⟩
+            · refine Or.inr ⟨?_, .valBad, Or.inr (Or.inr rfl), Or.inl ?_⟩
+              · rintro ⟨ip', fp', H⟩
+                obtain ⟨e1, e2⟩ := huniq ip' fp' hv hnd (Or.inr ⟨fp, h0⟩) H
+                rcases e2 with ⟨e2, _⟩ | e2
+                · rw [h0] at e2; cases e2
+                · rw [h0] at e2; cases e2
+                  subst ip'
+                  exact hok ⟨H.le1, H.one⟩
+              · rw [hval]
+                refine (nq_setQ_range pf ip fp hi hf hfit hl ?_).2
+                by_cases h1 : decOf ip ≤ 1
+                · have h2 : ¬ (decOf ip = 1 → decOf fp = 0) := fun h => hok ⟨h1, h⟩
+                  by_cases h3 : decOf ip = 1
+                  · exact Or.inr ⟨h3, by
+                      rcases Nat.eq_zero_or_pos (decOf fp) with h4 | h4
+                      · exact absurd (fun _ => h4) h2
+                      · exact h4⟩
+                  · exact absurd (fun h => absurd h h3) h2
+                · exact Or.inl (by omega)
+          · refine Or.inr ⟨?_, .valNotNumber, Or.inl rfl, Or.inl ?_⟩
+            · rintro ⟨ip', fp', H⟩
+              obtain ⟨e1, e2⟩ := huniq ip' fp' hv hnd (Or.inr ⟨fp, h0⟩) H
+              rcases e2 with ⟨e2, _⟩ | e2
+              · rw [h0] at e2; cases e2
+              · rw [h0] at e2; cases e2
+                exact hf H.df
+            · rw [hval]; exact nq_setQ_frac_nondigit pf ip fp hi hfit hf hl
+        · refine Or.inr ⟨?_, .valTooLong, Or.inr (Or.inl rfl), Or.inr ⟨rfl, ?_⟩⟩
+          · rintro ⟨ip', fp', H⟩
+            obtain ⟨e1, e2⟩ := huniq ip' fp' hv hnd (Or.inr ⟨fp, h0⟩) H
+            rcases e2 with ⟨e2, _⟩ | e2
+            · rw [h0] at e2; cases e2
+            · rw [h0] at e2; cases e2
+              exact hl H.len
+          · rw [hval]; exact nq_setQ_long pf ip fp hnd (by omega)
+    · -- integer part too big for 64 bits
+      have hno : ¬ ∃ ip' fp', NqQText val ip' fp' := by
+        rintro ⟨ip', fp', H⟩
+        have := (huniq ip' fp' hv hnd htl H).1
+        have := H.le1
+        subst ip'; unfold maxU64 at hfit; omega
+      rcases htl with h0 | ⟨fp, h0⟩
+      · refine Or.inr ⟨hno, .valTooLong, Or.inr (Or.inl rfl), Or.inl ?_⟩
+        rw [hv, h0, List.append_nil]
+        exact (nq_setQ_int_huge pf ip [] hi (by omega) (by simp)).1
+      · by_cases hl : fp.length ≤ 3
+        · refine Or.inr ⟨hno, .valTooLong, Or.inr (Or.inl rfl), Or.inl ?_⟩
+          rw [hv, h0]
+          exact (nq_setQ_int_huge pf ip fp hi (by omega) hl).2
+        · refine Or.inr ⟨hno, .valTooLong, Or.inr (Or.inl rfl), Or.inr ⟨rfl, ?_⟩⟩
+          rw [hv, h0]; exact nq_setQ_long pf ip fp hnd (by omega)
+  · have hno : ¬ ∃ ip' fp', NqQText val ip' fp' := by
+      rintro ⟨ip', fp', H⟩
+      have := (huniq ip' fp' hv hnd htl H).1
+      subst ip'; exact hi H.di
+    rcases htl with h0 | ⟨fp, h0⟩
+    · refine Or.inr ⟨hno, .valNotNumber, Or.inl rfl, Or.inl ?_⟩
+      rw [hv, h0, List.append_nil]
+      exact (nq_setQ_int_nondigit pf ip [] hnd hi (by simp)).1
+    · by_cases hl : fp.length ≤ 3
+      · refine Or.inr ⟨hno, .valNotNumber, Or.inl rfl, Or.inl ?_⟩
+        rw [hv, h0]
+        exact (nq_setQ_int_nondigit pf ip fp hnd hi hl).2
+      · refine Or.inr ⟨hno, .valTooLong, Or.inr (Or.inl rfl), Or.inr ⟨rfl, ?_⟩⟩
+        rw [hv, h0]; exact nq_setQ_long pf ip fp hnd (by omega)
+
+
+/-- **iff**: on an object without a pending parameter error, `setQ` leaves the error indication clear exactly for the
+    `q` texts -/
+theorem nq_setQ_ok_iff (pf : PFromBody) (val : List UInt8) (hok : pf.paramErr = .ok) :
+    (setQ pf val).paramErr = .ok ↔ ∃ ip fp, NqQText val ip fp := by
+  rcases nq_setQ_total pf val with ⟨ip, fp, H, _⟩ | ⟨hno, e, he, hs | ⟨_, hs⟩⟩
+  · exact ⟨fun _ => ⟨ip, fp, H⟩, fun _ => by rw [nq_setQ_accept pf val ip fp H]; exact hok⟩
+  · refine ⟨fun h => ?_, fun h => absurd h hno⟩
+    rw [hs] at h
+    rcases he with he | he | he <;> (rw [he] at h; cases h)
+  · refine ⟨fun h => ?_, fun h => absurd h hno⟩
+    rw [hs] at h
+    rcases he with he | he | he <;> (rw [he] at h; cases h)
+
+/-- non-vacuity: `0`, `1`, `0.`, `0.5`, `1.000` are `q` texts — and so are `.5` (empty integer part) and `001` (leading
+    zeros): the code accepts them -/
+theorem nq_qtext_examples :
+    NqQText [48] [48] [] ∧ NqQText [49] [49] [] ∧ NqQText [48, 46] [48] [] ∧ NqQText [48, 46, 53] [48] [53] ∧
+    NqQText [49, 46, 48, 48, 48] [49] [48, 48, 48] ∧ NqQText [46, 53] [] [53] ∧ NqQText [48, 48, 49] [48, 48, 49] [] := by
+  have d0 : IsDigitB 48 := by unfold IsDigitB; decide
+  have d1 : IsDigitB 49 := by unfold IsDigitB; decide
+  have d5 : IsDigitB 53 := by unfold IsDigitB; decide
+  have hd : ∀ l : List UInt8, (∀ c ∈ l, c = 48 ∨ c = 49 ∨ c = 53) → AllDigits l := by
+    intro l hl c hc
+    rcases hl c hc with h | h | h <;> (rw [h]; assumption)
+  refine ⟨⟨hd _ (by simp), hd _ (by simp), by simp, ?_, ?_, Or.inl ⟨rfl, rfl⟩⟩,
+    ⟨hd _ (by simp), hd _ (by simp), by simp, ?_, ?_, Or.inl ⟨rfl, rfl⟩⟩,
+    ⟨hd _ (by simp), hd _ (by simp), by simp, ?_, ?_, Or.inr rfl⟩,
+    ⟨hd _ (by simp), hd _ (by simp), by simp, ?_, ?_, Or.inr rfl⟩,
+    ⟨hd _ (by simp), hd _ (by simp), by simp, ?_, ?_, Or.inr rfl⟩,
+    ⟨hd _ (by simp), hd _ (by simp), by simp, ?_, ?_, Or.inr rfl⟩,
+    ⟨hd _ (by simp), hd _ (by simp), by simp, ?_, ?_, Or.inl ⟨rfl, rfl⟩⟩⟩ <;>
+  simp [decOf, decFrom, dval_def]
+
+/-- **`q=value`, every value**: lifted to the effect of the parameter on the object -/
+theorem nq_param_q_any (b : Buf) (ps pe vs ve : Nat) (a : PAcc) (h1 : ps < pe) (h2 : vs < ve) (h3 : pe ≤ b.size)
+    (h4 : ve ≤ b.size) (hfit : b.size ≤ 65535) (hn : cmpEqL (b.extract ps pe) sQ = true) :
+    (∃ ip fp, NqQText (b.extract vs ve).toList ip fp ∧ paramEffect b ps pe vs ve a = { a with q := qValue ip fp }) ∨
+    ((¬ ∃ ip fp, NqQText (b.extract vs ve).toList ip fp) ∧
+      ∃ e, (e = .valNotNumber ∨ e = .valTooLong ∨ e = .valBad) ∧
+        (paramEffect b ps pe vs ve a = { a with paramErr := e, errOffs := vs } ∨
+         (e = .valTooLong ∧ paramEffect b ps pe vs ve a = { a with paramErr := e, errOffs := ve }))) := by
+  have hlen := cmpEqL_len hn
+  have t1 : cmpEqL (b.extract ps pe) sTag = false := cmpEqL_false_of_len (by rw [hlen]; decide)
+  have t2 : cmpEqL (b.extract ps pe) sExpires = false := cmpEqL_false_of_len (by rw [hlen]; decide)
+  have hpe : paramEffect b ps pe vs ve a =
+      (setQ { (({} : PFromBody).withAcc a) with pstart := ps, pend := pe, vstart := vs, vend := ve }
+          (b.extract vs ve).toList).acc := by
+    rw [paramEffect_valued b ps pe vs ve a h1 h2 h3 h4, t1, t2, if_neg (by decide), if_neg (by decide), if_pos hn]
+  rw [hpe]
+  rcases nq_setQ_total { (({} : PFromBody).withAcc a) with pstart := ps, pend := pe, vstart := vs, vend := ve }
+    (b.extract vs ve).toList with ⟨ip, fp, H, hs⟩ | ⟨hno, e, he, hs | ⟨he2, hs⟩⟩
+  · exact Or.inl ⟨ip, fp, H, by rw [hs]; rfl⟩
+  · refine Or.inr ⟨hno, e, he, Or.inl ?_⟩
+    rw [hs]
+    show ({ a with paramErr := e, errOffs := trunc16 vs } : PAcc) = _
+    rw [trunc16_id (by omega)]
+  · refine Or.inr ⟨hno, e, he, Or.inr ⟨he2, ?_⟩⟩
+    rw [hs]
+    show ({ a with paramErr := e, errOffs := trunc16 ve } : PAcc) = _
+    rw [trunc16_id (by omega)]
+
+
+/-- tests (evaluation on concrete texts): `0.5000` -> too long, reported at the end of the value; `2`, `1.001` -> bad
+    value; `0.a`, `-1`, `0..` -> not a number; `.5` -> 500 -/
+example : (setQ { vstart := 10, vend := 16 } [48, 46, 53, 48, 48, 48]) =
+    { vstart := 10, vend := 16, paramErr := .valTooLong, errOffs := 16 } := by decide +kernel
+example : (setQ { vstart := 10, vend := 11 } [50]) = { vstart := 10, vend := 11, paramErr := .valBad, errOffs := 10 } := by
+  decide +kernel
+example : (setQ { vstart := 10, vend := 15 } [49, 46, 48, 48, 49]) =
+    { vstart := 10, vend := 15, paramErr := .valBad, errOffs := 10 } := by decide +kernel
+example : (setQ { vstart := 10, vend := 13 } [48, 46, 97]) =
+    { vstart := 10, vend := 13, paramErr := .valNotNumber, errOffs := 10 } := by decide +kernel
+example : (setQ { vstart := 10, vend := 13 } [48, 46, 46]) =
+    { vstart := 10, vend := 13, paramErr := .valNotNumber, errOffs := 10 } := by decide +kernel
+example : (setQ { vstart := 10, vend := 12 } [46, 53]) = { vstart := 10, vend := 12, q := 500 } := by decide +kernel
+
+/-! ## (2) trailing `;`, empty parameters, `name=` without a value -/
+
+/-! #### more steps of the parameter automaton -/
+
+theorem n2_stepNP_semi (h : Nat) (b : Buf) (i : Nat) (pf : PFromBody) (q : Bool) (hst : pf.state = stNP q) :
+    naStep h b i 59 pf = .cont (i + 1) pf := by
+  cases q <;>
+  · simp only [stNP] at hst
+    unfold naStep; simp only [hst]
+    unfold naStepP
+    simp +decide only [hst, ↓reduceIte]
+
+theorem n2_stepNP_eoh (h : Nat) (b : Buf) (i p crl : Nat) (c : UInt8) (pf : PFromBody) (q : Bool) (hst : pf.state = stNP q)
+    (hc : isLWSch c = true) (hs : skipLWS b i 0 = (p, crl, .eoh)) :
+    naStep h b i c pf = .done (p + crl) .ok { naEOHParamName b pf i with state := .fin, soffs := 0, type := h } := by
+  cases q <;>
+  · simp only [stNP] at hst
+    unfold naStep; simp only [hst]
+    unfold naStepP; simp only [hc, ↓reduceIte]
+    rw [hs]
+    simp +decide only [naNameWS, hst, ↓reduceIte]
+    unfold naEOH
+    simp only [hst]
+    rfl
+
+theorem n2_stepNP_comma (h : Nat) (b : Buf) (i : Nat) (pf : PFromBody) (q : Bool) (hst : pf.state = stNP q)
+    (hm : multipleValsOk h = true) :
+    naStep h b i 44 pf = .done (i + 1) .moreValues { naEOHParamName b pf i with state := .fin, soffs := 0, type := h } := by
+  cases q <;>
+  · simp only [stNP] at hst
+    unfold naStep; simp only [hst]
+    unfold naStepP
+    simp +decide only [hm, ↓reduceIte]
+    unfold naMoreValues naEOH
+    simp only [hst]
+    rfl
+
+theorem n2_stepNV_semi (h : Nat) (b : Buf) (i : Nat) (pf : PFromBody) (q : Bool) (hst : pf.state = stNV q) :
+    naStep h b i 59 pf = .cont (i + 1) (setFromParamVal b { pf with state := stNP q, vend := i }) := by
+  cases q <;>
+  · simp only [stNV] at hst
+    unfold naStep; simp only [hst]
+    unfold naStepV
+    simp +decide only [hst, ↓reduceIte]
+    rfl
+
+theorem n2_stepNV_eoh (h : Nat) (b : Buf) (i p crl : Nat) (c : UInt8) (pf : PFromBody) (q : Bool) (hst : pf.state = stNV q)
+    (hc : isLWSch c = true) (hs : skipLWS b i 0 = (p, crl, .eoh)) :
+    naStep h b i c pf = .done (p + crl) .ok
+      { naEOHVal b { pf with vstart := i } i with state := .fin, soffs := 0, type := h } := by
+  cases q <;>
+  · simp only [stNV] at hst
+    unfold naStep; simp only [hst]
+    unfold naStepV; simp only [hc, ↓reduceIte]
+    rw [hs]
+    have hv : naValWS pf i p false = pf := by unfold naValWS; simp only [hst]; rfl
+    simp only [hv]
+    unfold naEOH
+    simp only [hst]
+    rfl
+
+theorem n2_stepNV_comma (h : Nat) (b : Buf) (i : Nat) (pf : PFromBody) (q : Bool) (hst : pf.state = stNV q)
+    (hm : multipleValsOk h = true) :
+    naStep h b i 44 pf = .done (i + 1) .moreValues
+      { naEOHVal b { pf with vstart := i } i with state := .fin, soffs := 0, type := h } := by
+  cases q <;>
+  · simp only [stNV] at hst
+    unfold naStep; simp only [hst]
+    unfold naStepV
+    simp +decide only [hm, ↓reduceIte]
+    unfold naMoreValues naEOH
+    simp only [hst]
+    rfl
+
+/-! #### how a value ends after a `;` or after an `=` -/
+
+/-- the end of a value right after a `;` or an `=` at `i - 1`: optional white space and a line end that is not a fold
+    (verdict OK, offset after the line end; the reported spans end at `i`, i.e. they include the `;` / `=` but not the
+    white space), or — header kinds with several values — optional white space and a comma (verdict "more values",
+    offset after the comma; the reported spans end AT THE COMMA, i.e. they include the white space) -/
+def NqEnd (h : Nat) (b : Buf) (i ve o' : Nat) (e' : Err) : Prop :=
+  (∃ p c2, Lws b i p ∧ Eol b p o' ∧ b[o']? = some c2 ∧ isWS c2 = false ∧ e' = .ok ∧ ve = i) ∨
+  (∃ m, Lws b i m ∧ b[m]? = some 44 ∧ multipleValsOk h = true ∧ o' = m + 1 ∧ e' = .moreValues ∧ ve = m)
+
+theorem NqEnd.bounds {h : Nat} {b : Buf} {i ve o' : Nat} {e' : Err} (H : NqEnd h b i ve o' e') :
+    i ≤ ve ∧ ve < o' ∧ o' ≤ b.size ∧ (e' = .ok ∨ e' = .moreValues) := by
+  rcases H with ⟨p, c2, hl, he, h2, _, rfl, rfl⟩ | ⟨m, hl, hm, _, rfl, rfl, rfl⟩
+  · have := hl.le; have := he.gt; have := get?_lt h2
+    exact ⟨Nat.le_refl _, by omega, by omega, Or.inl rfl⟩
+  · have := hl.le; have := get?_lt hm
+    exact ⟨by omega, by omega, by omega, Or.inr rfl⟩
+
+/-- the finished object when the parameter span may be absent (`po = 0`: no parameter was seen) -/
+def nqFin (h : Nat) (base : PFromBody) (po ve : Nat) (a : PAcc) : PFromBody :=
+  if po = 0 then { (pst base .fin 0 0 0 0 0 a).extV ve with soffs := 0, type := h } else finP h base po ve a
+
+theorem n2_np_fin (h : Nat) (b : Buf) (q : Bool) (base : PFromBody) (po : Nat) (a : PAcc) (i : Nat) :
+    ({ naEOHParamName b (pst base (stNP q) po 0 0 0 0 a) i with state := .fin, soffs := 0, type := h } : PFromBody) =
+      nqFin h base po i a := by
+  unfold naEOHParamName nqFin
+  have e1 : ((pst base (stNP q) po 0 0 0 0 a).state == .paramName || (pst base (stNP q) po 0 0 0 0 a).state == .possibleParamName) = false := by
+    cases q <;> rfl
+  have e2 : ¬ ((pst base (stNP q) po 0 0 0 0 a).pstart < (pst base (stNP q) po 0 0 0 0 a).pend) := by
+    show ¬ (0 < 0); omega
+  simp only [e1, e2, Bool.false_eq_true, ↓reduceIte]
+  by_cases hpo : po = 0
+  · subst hpo
+    have e3 : ((pst base (stNP q) 0 0 0 0 0 a).params.offs != 0) = false := rfl
+    simp only [e3, Bool.false_eq_true, ↓reduceIte]
+    rfl
+  · have e3 : ((pst base (stNP q) po 0 0 0 0 a).params.offs != 0) = true := by
+      show (po != 0) = true; simpa using hpo
+    simp only [e3, ↓reduceIte, hpo]
+    rfl
+
+/-- after a `;` (no parameter name started): the end of the value -/
+theorem n2_np_end (h : Nat) (b : Buf) (q : Bool) (base : PFromBody) (po : Nat) (a : PAcc) {i ve o' : Nat} {e' : Err}
+    (H : NqEnd h b i ve o' e') :
+    runLoop (naMachine h) b i (pst base (stNP q) po 0 0 0 0 a) = (o', e', nqFin h base po ve a) := by
+  rcases H with ⟨p, c2, hl, he, h2, hw2, rfl, rfl⟩ | ⟨m, hl, hm, hmv, rfl, rfl, rfl⟩
+  · obtain ⟨c0, hc0, hl0⟩ := lws_eol_first hl he
+    have hgt := he.gt
+    refine runLoop_done (naMachine h) hc0 ?_
+    show naStep h b ve c0 _ = _
+    rw [n2_stepNP_eoh h b ve p (o' - p) c0 _ q rfl hl0 (skipLWS_of_lws_eol hl he h2 hw2)]
+    have : p + (o' - p) = o' := by omega
+    rw [this, n2_np_fin]
+  · have hle := hl.le
+    have hskip : runLoop (naMachine h) b i (pst base (stNP q) po 0 0 0 0 a) =
+        runLoop (naMachine h) b ve (pst base (stNP q) po 0 0 0 0 a) := by
+      by_cases h1 : i < ve
+      · obtain ⟨c0, hc0, hl0⟩ := hl.first h1
+        rw [runLoop_cont (naMachine h) hc0 (by exact stepNP_lws h b i ve c0 _ q rfl hl0 (skipLWS_of_lws hl hm (by decide))),
+          if_pos h1]
+      · have : i = ve := by omega
+        rw [this]
+    rw [hskip]
+    refine runLoop_done (naMachine h) hm ?_
+    show naStep h b ve 44 _ = _
+    rw [n2_stepNP_comma h b ve _ q rfl hmv, n2_np_fin]
+
+/-- an empty value acts like no value -/
+theorem n2_paramEffect_vv (b : Buf) (ps pe v : Nat) (a : PAcc) (h1 : ps < pe) :
+    paramEffect b ps pe v v a = paramEffect b ps pe 0 0 a := by
+  unfold paramEffect setFromParamVal
+  have c1 : (decide (ps < pe) && decide (v < v)) = false := by simp
+  have c1' : (decide (ps < pe) && decide (0 < 0)) = false := by simp
+  have c2 : (decide (ps < pe) && v == v) = true := by simp [h1]
+  have c2' : (decide (ps < pe) && (0 : Nat) == 0) = true := by simp [h1]
+  simp only [PFromBody.withAcc, c1, c1', c2, c2', Bool.false_eq_true, ↓reduceIte]
+  cases slice? b ps pe with
+  | none => rfl
+  | some nm =>
+    simp only
+    cases cmpEqL nm sLr <;> rfl
+
+theorem n2_nv_fin (h : Nat) (b : Buf) (q : Bool) (base : PFromBody) (po ps pe vs0 i : Nat) (a : PAcc) (h1 : ps < pe)
+    (h2 : pe ≤ i) (h3 : i ≤ b.size) :
+    ({ naEOHVal b { pst base (stNV q) po ps pe vs0 0 a with vstart := i } i with state := .fin, soffs := 0, type := h } : PFromBody) =
+      finP h base po i (paramEffect b ps pe 0 0 a) := by
+  unfold naEOHVal
+  have : ({ ({ pst base (stNV q) po ps pe vs0 0 a with vstart := i } : PFromBody) with vend := i } : PFromBody) =
+      pst base (stNV q) po ps pe i i a := rfl
+  rw [this, sfp_pst b base _ po ps pe i i a (by omega) h3, n2_paramEffect_vv b ps pe i a h1]
+  rfl
+
+/-- after `name =` (no value byte yet): the end of the value -/
+theorem n2_nv_end (h : Nat) (b : Buf) (q : Bool) (base : PFromBody) (po ps pe : Nat) (a : PAcc) {i ve o' : Nat} {e' : Err}
+    (h1 : ps < pe) (h2 : pe ≤ i) (H : NqEnd h b i ve o' e') :
+    runLoop (naMachine h) b i (pst base (stNV q) po ps pe i 0 a) =
+      (o', e', finP h base po ve (paramEffect b ps pe 0 0 a)) := by
+  have hb := H.bounds
+  rcases H with ⟨p, c2, hl, he, h2', hw2, rfl, rfl⟩ | ⟨m, hl, hm, hmv, rfl, rfl, rfl⟩
+  · obtain ⟨c0, hc0, hl0⟩ := lws_eol_first hl he
+    have hgt := he.gt
+    refine runLoop_done (naMachine h) hc0 ?_
+    show naStep h b ve c0 _ = _
+    rw [n2_stepNV_eoh h b ve p (o' - p) c0 _ q rfl hl0 (skipLWS_of_lws_eol hl he h2' hw2)]
+    have : p + (o' - p) = o' := by omega
+    rw [this, n2_nv_fin h b q base po ps pe ve ve a h1 h2 (by omega)]
+  · have hle := hl.le
+    have hskip : runLoop (naMachine h) b i (pst base (stNV q) po ps pe i 0 a) =
+        runLoop (naMachine h) b ve (pst base (stNV q) po ps pe ve 0 a) := by
+      by_cases h1 : i < ve
+      · obtain ⟨c0, hc0, hl0⟩ := hl.first h1
+        have hstep := stepNV_lws h b i ve c0 (pst base (stNV q) po ps pe i 0 a) q rfl hl0 (skipLWS_of_lws hl hm (by decide))
+        exact (runLoop_cont (naMachine h) hc0 (by exact hstep)).trans (if_pos h1)
+      · have : i = ve := by omega
+        rw [this]
+    rw [hskip]
+    refine runLoop_done (naMachine h) hm ?_
+    show naStep h b ve 44 _ = _
+    rw [n2_stepNV_comma h b ve _ q rfl hmv, n2_nv_fin h b q base po ps pe ve ve a h1 (by omega) (by omega)]
+
+/-- end of a parameter name, optional white space, `=`: up to the byte after the `=` -/
+theorem n2_peq_run (h : Nat) (b : Buf) (q : Bool) (base : PFromBody) (po ps pe eq : Nat) (a : PAcc)
+    (hl : Lws b pe eq) (heq : b[eq]? = some 61) :
+    runLoop (naMachine h) b pe (pst base (stPN q) po ps 0 0 0 a) =
+      runLoop (naMachine h) b (eq + 1) (pst base (stNV q) po ps pe (eq + 1) 0 a) := by
+  have hle := hl.le
+  by_cases h1 : pe < eq
+  · obtain ⟨c0, hc0, hl0⟩ := hl.first h1
+    rw [runLoop_cont (naMachine h) hc0
+      (by exact stepPN_lws h b pe eq c0 _ q rfl hl0 (skipLWS_of_lws hl heq (by decide))), if_pos h1]
+    exact (runLoop_cont (naMachine h) heq
+      (by exact stepPNE_eq h b eq (pst base (stPNE q) po ps pe 0 0 a) q rfl)).trans (if_pos (by omega))
+  · have : pe = eq := by omega
+    subst this
+    exact (runLoop_cont (naMachine h) heq
+      (by exact stepPN_eq h b pe (pst base (stPN q) po ps 0 0 0 a) q rfl)).trans (if_pos (by omega))
+
+/-- `name =` with an empty value, then optional white space and `;` -/
+theorem n2_nv_sep (h : Nat) (b : Buf) (q : Bool) (base : PFromBody) (po ps pe i m : Nat) (a : PAcc) (h1 : ps < pe)
+    (h2 : pe ≤ i) (hl : Lws b i m) (hm : b[m]? = some 59) :
+    runLoop (naMachine h) b i (pst base (stNV q) po ps pe i 0 a) =
+      runLoop (naMachine h) b (m + 1) (pst base (stNP q) po 0 0 0 0 (paramEffect b ps pe 0 0 a)) := by
+  have hsz := get?_lt hm
+  have hle := hl.le
+  have hskip : runLoop (naMachine h) b i (pst base (stNV q) po ps pe i 0 a) =
+      runLoop (naMachine h) b m (pst base (stNV q) po ps pe m 0 a) := by
+    by_cases h1 : i < m
+    · obtain ⟨c0, hc0, hl0⟩ := hl.first h1
+      have hstep := stepNV_lws h b i m c0 (pst base (stNV q) po ps pe i 0 a) q rfl hl0 (skipLWS_of_lws hl hm (by decide))
+      exact (runLoop_cont (naMachine h) hc0 (by exact hstep)).trans (if_pos h1)
+    · have : i = m := by omega
+      rw [this]
+  rw [hskip]
+  have hstep : naStep h b m 59 (pst base (stNV q) po ps pe m 0 a) =
+      .cont (m + 1) (pst base (stNP q) po 0 0 0 0 (paramEffect b ps pe 0 0 a)) := by
+    rw [n2_stepNV_semi h b m _ q rfl]
+    show Step.cont (m + 1) (setFromParamVal b (pst base (stNP q) po ps pe m m a)) = _
+    rw [sfp_pst b base _ po ps pe m m a (by omega) (by omega), n2_paramEffect_vv b ps pe m a h1]
+  exact (runLoop_cont (naMachine h) hm (by exact hstep)).trans (if_pos (by omega))
+
+/-! #### the grammar of a parameter list with empty parameters, empty values and a trailing `;` -/
+
+/-- everything after the first `;` of a value (read from the byte after it, at `i`), up to and including the end of the
+    value: `L` = the parameters with a name (an empty value is recorded as "no value": `vs = ve = 0`), `ve` = the end of
+    the reported parameter span and of the reported value, `o'` / `e'` = returned offset / verdict.
+    * `done`: nothing but the end of the value (a trailing `;`);
+    * `skip`: an empty parameter: optional white space and another `;`;
+    * `last`: a parameter of the old grammar (`ParamAt`) and the end of the value (`Term`);
+    * `lastEq`: `name [LWS] =` with an empty value, and the end of the value;
+    * `cons`, `consEq`: the same two followed by optional white space, `;` and the rest. -/
+inductive NqParams (h : Nat) (b : Buf) : Nat → List PSpan → Nat → Nat → Err → Prop
+  | done (i ve o' : Nat) (e' : Err) : NqEnd h b i ve o' e' → NqParams h b i [] ve o' e'
+  | skip (i m : Nat) (L : List PSpan) (ve o' : Nat) (e' : Err) : Lws b i m → b[m]? = some 59 →
+      NqParams h b (m + 1) L ve o' e' → NqParams h b i L ve o' e'
+  | last (i w : Nat) (x : PSpan) (o' : Nat) (e' : Err) : ParamAt b i x w → Term h b w o' e' → NqParams h b i [x] w o' e'
+  | lastEq (i ps pe eq ve o' : Nat) (e' : Err) : Lws b i ps → Run isPNch b ps pe → ps < pe → Lws b pe eq →
+      b[eq]? = some 61 → NqEnd h b (eq + 1) ve o' e' → NqParams h b i [⟨ps, pe, 0, 0⟩] ve o' e'
+  | cons (i w m : Nat) (x : PSpan) (L : List PSpan) (ve o' : Nat) (e' : Err) : ParamAt b i x w → Lws b w m →
+      b[m]? = some 59 → NqParams h b (m + 1) L ve o' e' → NqParams h b i (x :: L) ve o' e'
+  | consEq (i ps pe eq m : Nat) (L : List PSpan) (ve o' : Nat) (e' : Err) : Lws b i ps → Run isPNch b ps pe → ps < pe →
+      Lws b pe eq → b[eq]? = some 61 → Lws b (eq + 1) m → b[m]? = some 59 → NqParams h b (m + 1) L ve o' e' →
+      NqParams h b i (⟨ps, pe, 0, 0⟩ :: L) ve o' e'
+
+theorem n2_firstPs_ne (po : Nat) (x : PSpan) (L : List PSpan) (hx : x.ps ≠ 0) : firstPs po (x :: L) ≠ 0 := by
+  show poNext po x.ps ≠ 0
+  unfold poNext; split <;> omega
+
+theorem n2_firstPs_idem (p : Nat) (L : List PSpan) (hp : p ≠ 0) : firstPs p L = p := by
+  cases L with
+  | nil => rfl
+  | cons y L' => show poNext p y.ps = p; unfold poNext; rw [if_neg hp]
+
+theorem n2_nqFin_ne (h : Nat) (base : PFromBody) (po ve : Nat) (a : PAcc) (hpo : po ≠ 0) :
+    nqFin h base po ve a = finP h base po ve a := by
+  unfold nqFin; rw [if_neg hpo]
+
+/-- **the generalised parameter list**: from the byte after the first `;` to the end of the value -/
+theorem n2_params_run (h : Nat) (b : Buf) (q : Bool) (base : PFromBody) (hfit : b.size ≤ 65535) {i ve o' : Nat}
+    {e' : Err} {L : List PSpan} (H : NqParams h b i L ve o' e') :
+    ∀ (po : Nat) (a : PAcc), 0 < i →
+      runLoop (naMachine h) b i (pst base (stNP q) po 0 0 0 0 a) = (o', e', nqFin h base (firstPs po L) ve (accAll b L a)) := by
+  induction H with
+  | done i ve o' e' hend =>
+    intro po a _
+    exact n2_np_end h b q base po a hend
+  | skip i m L ve o' e' hl hm _ ih =>
+    intro po a h0
+    have hle := hl.le
+    have hskip : runLoop (naMachine h) b i (pst base (stNP q) po 0 0 0 0 a) =
+        runLoop (naMachine h) b m (pst base (stNP q) po 0 0 0 0 a) := by
+      by_cases h1 : i < m
+      · obtain ⟨c0, hc0, hl0⟩ := hl.first h1
+        rw [runLoop_cont (naMachine h) hc0 (by exact stepNP_lws h b i m c0 _ q rfl hl0 (skipLWS_of_lws hl hm (by decide))),
+          if_pos h1]
+      · have : i = m := by omega
+        rw [this]
+    rw [hskip, runLoop_cont (naMachine h) hm (by exact n2_stepNP_semi h b m _ q rfl), if_pos (by omega)]
+    exact ih po a (by omega)
+  | last i w x o' e' hx T =>
+    intro po a h0
+    have hb := hx.bounds
+    rw [na_param_term h b q base po a hx T h0 hfit, n2_nqFin_ne h base _ w _ (n2_firstPs_ne po x [] (by omega))]
+    rfl
+  | lastEq i ps pe eq ve o' e' hl hn hlt hl2 heq hend =>
+    intro po a h0
+    have := hl.le; have := hl2.le
+    have hne : poNext po ps ≠ 0 := by unfold poNext; split <;> omega
+    rw [na_pname_run h b q base po a i ps pe hl hn hlt (by omega) hfit, n2_peq_run h b q base _ ps pe eq a hl2 heq,
+      n2_nv_end h b q base _ ps pe a hlt (by omega) hend, n2_nqFin_ne h base _ ve _ (by exact hne)]
+    rfl
+  | cons i w m x L ve o' e' hx hl hm _ ih =>
+    intro po a h0
+    have hb := hx.bounds
+    have hne : poNext po x.ps ≠ 0 := by unfold poNext; split <;> omega
+    rw [na_param_sep h b q base po a hx hl hm h0 hfit, ih _ _ (by omega), n2_firstPs_idem _ L hne]
+    rfl
+  | consEq i ps pe eq m L ve o' e' hl hn hlt hl2 heq hl3 hm _ ih =>
+    intro po a h0
+    have := hl.le; have := hl2.le
+    have hne : poNext po ps ≠ 0 := by unfold poNext; split <;> omega
+    rw [na_pname_run h b q base po a i ps pe hl hn hlt (by omega) hfit, n2_peq_run h b q base _ ps pe eq a hl2 heq,
+      n2_nv_sep h b q base _ ps pe (eq + 1) m a hlt (by omega) hl3 hm, ih _ _ (by omega), n2_firstPs_idem _ L hne]
+    rfl
+
+theorem NqParams.bounds {h : Nat} {b : Buf} {i ve o' : Nat} {e' : Err} {L : List PSpan} (H : NqParams h b i L ve o' e') :
+    i ≤ ve ∧ ve < o' ∧ o' ≤ b.size ∧ (e' = .ok ∨ e' = .moreValues) ∧ (L = [] ∨ (i ≤ firstPs 0 L ∧ firstPs 0 L < ve)) := by
+  induction H with
+  | done i ve o' e' hend =>
+    obtain ⟨h1, h2, h3, h4⟩ := hend.bounds
+    exact ⟨h1, h2, h3, h4, Or.inl rfl⟩
+  | skip i m L ve o' e' hl hm _ ih =>
+    obtain ⟨h1, h2, h3, h4, h5⟩ := ih
+    have := hl.le
+    refine ⟨by omega, h2, h3, h4, ?_⟩
+    rcases h5 with h5 | h5
+    · exact Or.inl h5
+    · exact Or.inr ⟨by omega, h5.2⟩
+  | last i w x o' e' hx T =>
+    have hb := hx.bounds; have hr := T.range
+    exact ⟨by omega, hr.1, hr.2, T.complete, Or.inr ⟨hb.1, by show x.ps < w; omega⟩⟩
+  | lastEq i ps pe eq ve o' e' hl hn hlt hl2 heq hend =>
+    obtain ⟨h1, h2, h3, h4⟩ := hend.bounds
+    have := hl.le; have := hl2.le
+    exact ⟨by omega, h2, h3, h4, Or.inr ⟨by show i ≤ ps; omega, by show ps < ve; omega⟩⟩
+  | cons i w m x L ve o' e' hx hl hm _ ih =>
+    obtain ⟨h1, h2, h3, h4, _⟩ := ih
+    have hb := hx.bounds; have := hl.le
+    exact ⟨by omega, h2, h3, h4, Or.inr ⟨hb.1, by show x.ps < ve; omega⟩⟩
+  | consEq i ps pe eq m L ve o' e' hl hn hlt hl2 heq hl3 hm _ ih =>
+    obtain ⟨h1, h2, h3, h4, _⟩ := ih
+    have := hl.le; have := hl2.le; have := hl3.le
+    exact ⟨by omega, h2, h3, h4, Or.inr ⟨by show i ≤ ps; omega, by show ps < ve; omega⟩⟩
+
+/-- the reported parameter span: empty when no parameter with a name was seen -/
+def nqSpan (po ve : Nat) : PField := if po = 0 then {} else ⟨po, ve - po⟩
+
+theorem n2_nqFin_result (h : Nat) (base : PFromBody) (po w : Nat) (a : PAcc) (hs : base.star = false) (hp : base.pnc = false)
+    (hpl : base.params.len = 0) (hv : base.v.offs ≤ w) (hpo : po ≤ w) (hw : w ≤ 65535) :
+    ({ nqFin h base po w a with s := 0 } : PFromBody) =
+      naResult h base.name base.uri (nqSpan po w) ⟨base.v.offs, w - base.v.offs⟩ a := by
+  by_cases h0 : po = 0
+  · subst h0
+    unfold nqFin nqSpan
+    rw [if_pos rfl, if_pos rfl]
+    unfold pst PFromBody.extV naResult
+    simp only [extend_eq base.v w hv hw, hs, hp, hpl, extendPanics_false base.v w hv, Bool.or_false]
+  · unfold nqSpan
+    rw [n2_nqFin_ne h base po w a h0, if_neg h0]
+    exact finP_result h base po w a hs hp hv hpo hw
+
+
+/-! #### the whole value -/
+
+/-- **`[display-name] <uri> [LWS] ;` and ANY generalised parameter list** (`NqParams`: parameters with / without value,
+    empty values `name=`, empty parameters `;;`, trailing `;`): accepted; the parameter span runs from the first byte of
+    the first parameter name to `ve` (empty if there is no named parameter), the value from its first byte to `ve` -/
+theorem n2_bracket_params (h : Nat) (b : Buf) (o a g m ve o' : Nat) (e' : Err) (nm : PField) (L : List PSpan)
+    (hfit : b.size ≤ 65535) (hp : AddrPrefix b o nm a) (hu : Run isURIch b (a + 1) g) (hag : a + 1 ≤ g)
+    (hg : b[g]? = some 62) (hl : Lws b (g + 1) m) (hm : b[m]? = some 59) (hL : NqParams h b (m + 1) L ve o' e') :
+    parseNameAddrPVal h b o {} =
+      (o', e', naResult h nm ⟨a + 1, g - (a + 1)⟩ (nqSpan (firstPs 0 L) ve) ⟨o, ve - o⟩ (accAll b L {})) := by
+  obtain ⟨hoa, x, hrun⟩ := hp.run h hfit
+  obtain ⟨hb1, hb2, hb3, hb4, hb5⟩ := hL.bounds
+  have hle := hl.le
+  have hpo : firstPs 0 L ≤ ve := by
+    rcases hb5 with h5 | h5
+    · rw [h5]; exact Nat.zero_le _
+    · omega
+  have hloop : runLoop (naMachine h) b o {} =
+      (o', e', nqFin h { ufBase nm o a g with s := 0 } (firstPs 0 L) ve (accAll b L {})) := by
+    rw [hrun, na_uri_to_uf h b nm o x a g hoa hag hu hg hfit, na_uf_sep h b _ rfl hl hm]
+    exact n2_params_run h b false { ufBase nm o a g with s := 0 } hfit hL 0 {} (by omega)
+  rw [parse_of_loop h b o hloop hb4]
+  rw [n2_nqFin_result h _ (firstPs 0 L) ve _ rfl rfl rfl (by show o ≤ ve; omega) hpo (by omega)]
+  rfl
+
+/-- **bare URI `[LWS] ;` and ANY generalised parameter list**: they are header parameters -/
+theorem n2_bare_params (h : Nat) (b : Buf) (o t m ve o' : Nat) (e' : Err) (L : List PSpan)
+    (hfit : b.size ≤ 65535) {c : UInt8} (hc : b[o]? = some c) (h1 : isTok1 c = true)
+    (hr : Run isTokch b (o + 1) t) (hot : o + 1 ≤ t) (hl : Lws b t m) (hm : b[m]? = some 59)
+    (hL : NqParams h b (m + 1) L ve o' e') :
+    parseNameAddrPVal h b o {} =
+      (o', e', naResult h {} ⟨o, t - o⟩ (nqSpan (firstPs 0 L) ve) ⟨o, ve - o⟩ (accAll b L {})) := by
+  obtain ⟨hb1, hb2, hb3, hb4, hb5⟩ := hL.bounds
+  have hle := hl.le
+  have hpo : firstPs 0 L ≤ ve := by
+    rcases hb5 with h5 | h5
+    · rw [h5]; exact Nat.zero_le _
+    · omega
+  obtain ⟨x, s', hsep⟩ := na_nu_sep h b o t m hfit (by omega) hl hm
+  have hloop : runLoop (naMachine h) b o {} =
+      (o', e', nqFin h (bareBase o t x s') (firstPs 0 L) ve (accAll b L {})) := by
+    rw [na_tok_run h b o t hfit hc h1 hr hot, hsep]
+    exact n2_params_run h b true (bareBase o t x s') hfit hL 0 {} (by omega)
+  rw [parse_of_loop h b o hloop hb4]
+  rw [n2_nqFin_result h _ (firstPs 0 L) ve _ rfl rfl rfl (by show o ≤ ve; omega) hpo (by omega)]
+  rfl
+
+/-- the old grammar is a special case: a `PList` followed by `Term` -/
+theorem n2_of_plist {h : Nat} {b : Buf} {i w o' : Nat} {e' : Err} {L : List PSpan} (H : PList b i L w)
+    (T : Term h b w o' e') : NqParams h b i L w o' e' := by
+  induction H with
+  | last i w x hx => exact .last i w x o' e' hx T
+  | cons i w m w' x L hx hl hm _ ih => exact .cons i w m x L w' o' e' hx hl hm (ih T)
+
+/-- a `PList`, optional white space, a trailing `;` and the end of the value -/
+theorem n2_of_plist_semi {h : Nat} {b : Buf} {i w m ve o' : Nat} {e' : Err} {L : List PSpan} (H : PList b i L w)
+    (hl : Lws b w m) (hm : b[m]? = some 59) (E : NqEnd h b (m + 1) ve o' e') : NqParams h b i L ve o' e' := by
+  induction H with
+  | last i w x hx => exact .cons i w m x [] ve o' e' hx hl hm (.done (m + 1) ve o' e' E)
+  | cons i w m' w' x L hx hl' hm' _ ih => exact .cons i w m' x L ve o' e' hx hl' hm' (ih hl)
+
+/-! #### the shapes spelled out -/
+
+/-- `<uri> ;` and the line end: accepted, no parameters; the reported value INCLUDES the `;` -/
+theorem n2_uri_trailing_semi (h : Nat) (b : Buf) (o g m p e : Nat) (hfit : b.size ≤ 65535) (h0 : b[o]? = some 60)
+    (hu : Run isURIch b (o + 1) g) (hog : o + 1 ≤ g) (hg : b[g]? = some 62) (hl : Lws b (g + 1) m) (hm : b[m]? = some 59)
+    (hl2 : Lws b (m + 1) p) (he : Eol b p e) {c2 : UInt8} (h2 : b[e]? = some c2) (hw2 : isWS c2 = false) :
+    parseNameAddrPVal h b o {} =
+      (e, .ok, { uri := ⟨o + 1, g - (o + 1)⟩, v := ⟨o, m + 1 - o⟩, type := h, state := .fin }) :=
+  n2_bracket_params h b o o g m (m + 1) e .ok {} [] hfit (.none h0) hu hog hg hl hm
+    (.done (m + 1) (m + 1) e .ok (Or.inl ⟨p, c2, hl2, he, h2, hw2, rfl, rfl⟩))
+
+/-- `<uri> ;params ;` and the line end: accepted; the reported parameter span and value INCLUDE the trailing `;` (and
+    the white space in front of it) -/
+theorem n2_params_trailing_semi (h : Nat) (b : Buf) (o a g m w m2 p e : Nat) (nm : PField) (L : List PSpan)
+    (hfit : b.size ≤ 65535) (hp : AddrPrefix b o nm a) (hu : Run isURIch b (a + 1) g) (hag : a + 1 ≤ g)
+    (hg : b[g]? = some 62) (hl : Lws b (g + 1) m) (hm : b[m]? = some 59) (hL : PList b (m + 1) L w)
+    (hl2 : Lws b w m2) (hm2 : b[m2]? = some 59) (hl3 : Lws b (m2 + 1) p) (he : Eol b p e) {c2 : UInt8}
+    (h2 : b[e]? = some c2) (hw2 : isWS c2 = false) :
+    parseNameAddrPVal h b o {} =
+      (e, .ok, naResult h nm ⟨a + 1, g - (a + 1)⟩ ⟨firstPs 0 L, m2 + 1 - firstPs 0 L⟩ ⟨o, m2 + 1 - o⟩ (accAll b L {})) := by
+  have hN := n2_of_plist_semi (h := h) hL hl2 hm2 (Or.inl ⟨p, c2, hl3, he, h2, hw2, rfl, rfl⟩)
+  rw [n2_bracket_params h b o a g m (m2 + 1) e .ok nm L hfit hp hu hag hg hl hm hN]
+  have hb := hL.bounds
+  have : firstPs 0 L ≠ 0 := by omega
+  unfold nqSpan; rw [if_neg this]
+
+/-- `<uri> ;name=` and the line end (an `=` without a value as the only parameter): accepted; the parameter acts like
+    `;name` (only `lr` is recognised: `tag=`, `q=`, `expires=` set nothing and raise no error); the reported spans
+    INCLUDE the `=` -/
+theorem n2_empty_value (h : Nat) (b : Buf) (o a g m ps pe eq p e : Nat) (nm : PField)
+    (hfit : b.size ≤ 65535) (hp : AddrPrefix b o nm a) (hu : Run isURIch b (a + 1) g) (hag : a + 1 ≤ g)
+    (hg : b[g]? = some 62) (hl : Lws b (g + 1) m) (hm : b[m]? = some 59) (hl1 : Lws b (m + 1) ps)
+    (hn : Run isPNch b ps pe) (hlt : ps < pe) (hl2 : Lws b pe eq) (heq : b[eq]? = some 61)
+    (hl3 : Lws b (eq + 1) p) (he : Eol b p e) {c2 : UInt8} (h2 : b[e]? = some c2) (hw2 : isWS c2 = false) :
+    parseNameAddrPVal h b o {} =
+      (e, .ok, naResult h nm ⟨a + 1, g - (a + 1)⟩ ⟨ps, eq + 1 - ps⟩ ⟨o, eq + 1 - o⟩
+        (if cmpEqL (b.extract ps pe) sLr then { lr := true } else {})) := by
+  have hN : NqParams h b (m + 1) [⟨ps, pe, 0, 0⟩] (eq + 1) e .ok :=
+    .lastEq (m + 1) ps pe eq (eq + 1) e .ok hl1 hn hlt hl2 heq (Or.inl ⟨p, c2, hl3, he, h2, hw2, rfl, rfl⟩)
+  rw [n2_bracket_params h b o a g m (eq + 1) e .ok nm _ hfit hp hu hag hg hl hm hN]
+  have := hl1.le; have := hl2.le; have := get?_lt heq
+  have hps : ps ≠ 0 := by omega
+  have e1 : nqSpan (firstPs 0 [(⟨ps, pe, 0, 0⟩ : PSpan)]) (eq + 1) = ⟨ps, eq + 1 - ps⟩ := by
+    show nqSpan (poNext 0 ps) (eq + 1) = _
+    unfold nqSpan poNext; rw [if_pos rfl, if_neg hps]
+  rw [e1, accAll_cons, accAll_nil, paramEffect_flag b ps pe {} hlt (by omega)]
+
+/-! #### non-vacuity and tests -/
+
+/-- the hypotheses of `n2_bracket_params` are satisfiable: `<a>;x;;y= ;` and CR LF — a parameter, an empty parameter, a
+    parameter with `=` and no value, a trailing `;` -/
+example : parseNameAddrPVal HdrFrom "<a>;x;;y= ;\r\nX".toUTF8.data 0 {} =
+    (13, .ok, naResult HdrFrom {} ⟨1, 1⟩ ⟨4, 7⟩ ⟨0, 11⟩ {}) := by
+  have hx : ParamAt "<a>;x;;y= ;\r\nX".toUTF8.data (3 + 1) ⟨4, 5, 0, 0⟩ 5 :=
+    .flag 4 5 (.nil 4) (run_of_check (by decide)) (by decide)
+  have hN : NqParams HdrFrom "<a>;x;;y= ;\r\nX".toUTF8.data (3 + 1) [⟨4, 5, 0, 0⟩, ⟨7, 8, 0, 0⟩] 11 13 .ok :=
+    .cons 4 5 5 _ _ 11 13 .ok hx (.nil 5) (by decide)
+      (.skip 6 6 _ 11 13 .ok (.nil 6) (by decide)
+        (.consEq 7 7 8 8 10 [] 11 13 .ok (.nil 7) (run_of_check (by decide)) (by decide) (.nil 8) (by decide)
+          (.ws 9 10 32 (by decide) (by decide) (.nil 10)) (by decide)
+          (.done 11 11 13 .ok (Or.inl ⟨11, 88, .nil 11, .crlf 11 (by decide) (by decide), by decide, by decide, rfl, rfl⟩))))
+  have := n2_bracket_params HdrFrom _ 0 0 2 3 11 13 .ok {} _ (by decide) (.none (by decide)) (run_of_check (by decide))
+    (by decide) (by decide) (.nil 3) (by decide) hN
+  rw [this]
+  decide +kernel
+
+/-- tests (evaluation): trailing `;` before a comma — the reported value includes the white space before the comma -/
+example : (parseNameAddrPVal HdrContact "<a>;lr; ,<x>\r\nX".toUTF8.data 0 {}) =
+    (9, .moreValues, { uri := ⟨1, 1⟩, params := ⟨4, 4⟩, v := ⟨0, 8⟩, lr := true, type := HdrContact, state := .fin }) := by
+  decide +kernel
+
+example : (parseNameAddrPVal HdrContact "<a>;tag=\r\nX".toUTF8.data 0 {}) =
+    (10, .ok, { uri := ⟨1, 1⟩, params := ⟨4, 4⟩, v := ⟨0, 8⟩, type := HdrContact, state := .fin }) := by
+  decide +kernel
+
+
+/-! ## (3) rejection of ill-formed values: verdict and offset -/
+
+/-- the whole call on a new object when the loop stops with an error -/
+theorem n3_parse_of_loop_err (h : Nat) (b : Buf) (o : Nat) {o' : Nat} {e : Err} {st : PFromBody}
+    (hr : runLoop (naMachine h) b o {} = (o', e, st)) (he : e = .badChar ∨ e = .bad) :
+    parseNameAddrPVal h b o {} = (o', e, { st with s := 0, soffs := 0 }) := by
+  unfold parseNameAddrPVal
+  rw [if_neg (by decide)]
+  show ((runLoop (naMachine h) b o {}).1, (runLoop (naMachine h) b o {}).2.1,
+    naExit 0 (runLoop (naMachine h) b o {}).2.1 (runLoop (naMachine h) b o {}).2.2) = _
+  rw [hr]
+  unfold naExit
+  rcases he with rfl | rfl <;> rfl
+
+/-! #### inside the angle brackets -/
+
+theorem n3_stepU_bad (h : Nat) (b : Buf) (i : Nat) (c : UInt8) (pf : PFromBody) (hst : pf.state = .uri)
+    (hc : c = 60 ∨ isLWSch c = true) : naStep h b i c pf = .done i .badChar pf := by
+  unfold naStep; simp only [hst]
+  unfold naStepU
+  rcases hc with rfl | hc
+  · simp +decide only [↓reduceIte]
+  · have h62 : (c == 62) = false := by
+      unfold isLWSch at hc; simp only [Bool.or_eq_true, beq_iff_eq] at hc
+      rcases hc with ((hc | hc) | hc) | hc <;> (rw [hc]; decide)
+    simp only [h62, hc, Bool.or_true, Bool.false_eq_true, ↓reduceIte]
+
+/-- **unterminated `<` / a second `<`**: `[display-name] <` followed by URI bytes and then — instead of `>` — a space,
+    a tab, a CR, a LF (the line end) or another `<`: verdict "bad character", the offset is that of the offending byte
+    (inside the value), the object is left in the "inside the URI" state with only the display name recorded -/
+theorem n3_uri_unterminated (h : Nat) (b : Buf) (o a g : Nat) (nm : PField) (hfit : b.size ≤ 65535)
+    (hp : AddrPrefix b o nm a) (hu : Run isURIch b (a + 1) g) (hag : a + 1 ≤ g) {c : UInt8} (hg : b[g]? = some c)
+    (hc : c = 60 ∨ isLWSch c = true) :
+    (∃ x, parseNameAddrPVal h b o {} = (g, .badChar, { name := nm, v := ⟨o, x⟩, state := .uri })) ∧ o < g ∧ g < b.size := by
+  obtain ⟨hoa, x, hrun⟩ := hp.run h hfit
+  refine ⟨⟨x, ?_⟩, by omega, get?_lt hg⟩
+  have hloop : runLoop (naMachine h) b o {} = (g, .badChar, uriSt nm o x a) := by
+    rw [hrun, runLoop_run (naMachine h) b isURIch (uriSt nm o x a) (fun k c' _ hc' => naStep_uri_ch h b k c' (uriSt nm o x a) rfl hc') (a + 1) g hag hu]
+    exact runLoop_done (naMachine h) hg (by exact n3_stepU_bad h b g c (uriSt nm o x a) rfl hc)
+  rw [n3_parse_of_loop_err h b o hloop (Or.inl rfl)]
+  rfl
+
+/-- **empty URI `<>`**: NOT rejected — the value is accepted with an empty URI span (instance of the bracket form) -/
+theorem n3_empty_uri (h : Nat) (b : Buf) (o a o' : Nat) (e' : Err) (nm : PField) (hfit : b.size ≤ 65535)
+    (hp : AddrPrefix b o nm a) (hg : b[a + 1]? = some 62) (T : Term h b (a + 2) o' e') :
+    parseNameAddrPVal h b o {} = (o', e', naResult h nm ⟨a + 1, 0⟩ {} ⟨o, a + 2 - o⟩ {}) := by
+  have := parseNameAddr_bracket h b o a (a + 1) o' e' nm hfit hp (fun k h1 h2 => by omega) (Nat.le_refl _) hg T
+  rw [this, Nat.sub_self]
+
+/-! #### quoted strings that are not closed -/
+
+/-- the inside of a quoted string from `i` up to `w`, where it is NOT closed: ordinary bytes, `\x` pairs and linear white
+    space followed by a byte that is not white space (as in `NaQBody`, without the closing quote) -/
+inductive NqQOpen (b : Buf) : Nat → Nat → Prop
+  | nil (w : Nat) : NqQOpen b w w
+  | ch (i j : Nat) (c : UInt8) : b[i]? = some c → isQch c = true → NqQOpen b (i + 1) j → NqQOpen b i j
+  | esc (i j : Nat) (c1 : UInt8) : b[i]? = some 92 → b[i + 1]? = some c1 → isCRLFch c1 = false → NqQOpen b (i + 2) j →
+      NqQOpen b i j
+  | lws (i n j : Nat) (c : UInt8) : Lws b i n → i < n → b[n]? = some c → isLWSch c = false → NqQOpen b n j → NqQOpen b i j
+
+theorem NqQOpen.le {b : Buf} {i j : Nat} (H : NqQOpen b i j) : i ≤ j := by
+  induction H with
+  | nil i => exact Nat.le_refl _
+  | ch i j c _ _ _ ih => omega
+  | esc i j c1 _ _ _ _ ih => omega
+  | lws i n j c _ hlt _ _ _ ih => omega
+
+theorem n3_qopen_run (h : Nat) {b : Buf} {i j : Nat} (H : NqQOpen b i j) (pf : PFromBody) (hst : IsQState pf.state) :
+    runLoop (naMachine h) b i pf = runLoop (naMachine h) b j pf := by
+  induction H with
+  | nil i => rfl
+  | ch i j c hc hq _ ih =>
+    rw [runLoop_cont (naMachine h) hc (by exact stepQ_ch h b i c pf hst hq), if_pos (by omega)]; exact ih
+  | esc i j c1 h0 h1 hc1 _ ih =>
+    rw [runLoop_cont (naMachine h) h0 (by exact stepQ_esc h b i c1 pf hst h1 hc1), if_pos (by omega)]; exact ih
+  | lws i n j c hl hlt hn hc _ ih =>
+    obtain ⟨c0, h0, hl0⟩ := hl.first hlt
+    rw [runLoop_cont (naMachine h) h0 (by exact stepQ_lws h b i n c0 pf hst hl0 (skipLWS_of_lws hl hn hc)), if_pos hlt]
+    exact ih
+
+theorem n3_lws_not_q {c : UInt8} (hc : isLWSch c = true) : (c == 34) = false ∧ (c == 92) = false := by
+  unfold isLWSch at hc; simp only [Bool.or_eq_true, beq_iff_eq] at hc
+  rcases hc with ((hc | hc) | hc) | hc <;> (rw [hc]; decide)
+
+/-- inside a quoted string (display name or parameter value): the line end -> verdict "bad header", offset after the line
+    end, object untouched -/
+theorem n3_q_eol (h : Nat) (b : Buf) (pf : PFromBody) (hst : IsQState pf.state) {w p e : Nat} (hl : Lws b w p)
+    (he : Eol b p e) {c2 : UInt8} (h2 : b[e]? = some c2) (hw2 : isWS c2 = false) :
+    runLoop (naMachine h) b w pf = (e, .bad, pf) := by
+  obtain ⟨c0, hc0, hl0⟩ := lws_eol_first hl he
+  have hgt := he.gt
+  obtain ⟨h34, h92⟩ := n3_lws_not_q hl0
+  refine runLoop_done (naMachine h) hc0 ?_
+  show naStep h b w c0 pf = _
+  rw [naStep_q h b w c0 pf hst]
+  unfold naStepQ
+  simp only [h34, h92, hl0, Bool.false_eq_true, ↓reduceIte]
+  rw [naLWS_eoh pf (skipLWS_of_lws_eol hl he h2 hw2)]
+  have : p + (e - p) = e := by omega
+  unfold naEOH
+  rcases hst with hst | hst | hst <;> simp only [hst, this]
+
+/-- inside a quoted string: a backslash in front of CR / LF -> "bad character" at the CR / LF -/
+theorem n3_q_esc_crlf (h : Nat) (b : Buf) (pf : PFromBody) (hst : IsQState pf.state) {w : Nat} (h0 : b[w]? = some 92)
+    {c1 : UInt8} (h1 : b[w + 1]? = some c1) (hc1 : isCRLFch c1 = true) :
+    runLoop (naMachine h) b w pf = (w + 1, .badChar, pf) := by
+  refine runLoop_done (naMachine h) h0 ?_
+  show naStep h b w 92 pf = _
+  rw [naStep_q h b w 92 pf hst]
+  unfold naStepQ
+  simp +decide only [h1, hc1, ↓reduceIte]
+
+
+/-! #### an unterminated quoted string in the display name -/
+
+theorem n3_stepA_nu_quote (h : Nat) (b : Buf) (i : Nat) (pf : PFromBody) (hst : pf.state = .nameOrURI) :
+    naStep h b i 34 pf = .cont (i + 1) { pf.resetUPT with state := .quoted } := by
+  unfold naStep; simp only [hst]
+  unfold naStepA
+  simp +decide only [hst, ↓reduceIte]
+
+/-- the object inside a quoted string of a display name that started at `o` -/
+def nqQSt (o x : Nat) : PFromBody := { v := ⟨o, x⟩, s := o, state := .quoted }
+
+/-- the rest of a display name from `i` up to an opening quote at `k` (token bytes, white space, closed quoted strings) -/
+inductive NqTailQ (b : Buf) : Nat → Nat → Prop
+  | opn (k : Nat) : b[k]? = some 34 → NqTailQ b k k
+  | ch (i k : Nat) (c : UInt8) : b[i]? = some c → isTokch c = true → NqTailQ b (i + 1) k → NqTailQ b i k
+  | lws (i n k : Nat) (c : UInt8) : Lws b i n → i < n → b[n]? = some c → isLWSch c = false → NqTailQ b n k → NqTailQ b i k
+  | q (i k1 k : Nat) : b[i]? = some 34 → NaQBody b (i + 1) k1 → NqTailQ b (k1 + 1) k → NqTailQ b i k
+
+theorem NqTailQ.le {b : Buf} {i k : Nat} (H : NqTailQ b i k) : i ≤ k := by
+  induction H with
+  | opn k _ => exact Nat.le_refl _
+  | ch i k c _ _ _ ih => omega
+  | lws i n k c _ _ _ _ _ ih => omega
+  | q i k1 k _ hq _ ih => have := hq.le; omega
+
+theorem n3_tailq_run (h : Nat) (b : Buf) (o x : Nat) {i k : Nat} (H : NqTailQ b i k) :
+    runLoop (naMachine h) b i (nmSt o x) = runLoop (naMachine h) b (k + 1) (nqQSt o x) := by
+  induction H with
+  | opn k hk =>
+    have hstep : naStep h b k 34 (nmSt o x) = .cont (k + 1) (nqQSt o x) := by
+      rw [stepA_nm_quote h b k _ rfl]; rfl
+    exact (runLoop_cont (naMachine h) hk (by exact hstep)).trans (if_pos (by omega))
+  | ch i k c hc ht _ ih =>
+    rw [runLoop_cont (naMachine h) hc (by exact stepA_nm_tok h b i c (nmSt o x) rfl ht), if_pos (by omega)]
+    exact ih
+  | lws i n k c hl hlt hn hcl _ ih =>
+    rw [na_skip_lws h b _ hl hn hcl (fun c' hc' => stepA_nm_lws h b i c' _ rfl hc')]
+    exact ih
+  | q i k1 k hc hq _ ih =>
+    have := hq.le
+    have hstep : naStep h b i 34 (nmSt o x) = .cont (i + 1) ({ v := ⟨o, x⟩, s := o, state := .quoted } : PFromBody) := by
+      rw [stepA_nm_quote h b i _ rfl]; rfl
+    rw [runLoop_cont (naMachine h) hc (by exact hstep), if_pos (by omega), na_name_quoted h b o x hq]
+    exact ih
+
+/-- after a first token and white space: the rest of the display name up to the opening quote -/
+theorem n3_nue_tailq (h : Nat) (b : Buf) (o t : Nat) {n k : Nat} (H : NqTailQ b n k) {c' : UInt8} (hn : b[n]? = some c')
+    (hcl : isLWSch c' = false) (h42 : (c' == 42) = false) :
+    runLoop (naMachine h) b n (nueSt o t) = runLoop (naMachine h) b (k + 1) (nqQSt o (t - o)) := by
+  rcases H with ⟨_, hk⟩ | ⟨_, _, c'', hc, htk, H'⟩ | ⟨_, n', _, c'', hl', hlt', hn', hcl', H'⟩ | ⟨_, k1, _, hc, hq, H'⟩
+  · have hstep : naStep h b n 34 (nueSt o t) = .cont (n + 1) (nqQSt o (t - o)) := by
+      rw [stepA_nue_quote h b n _ rfl]; rfl
+    exact (runLoop_cont (naMachine h) hk (by exact hstep)).trans (if_pos (by omega))
+  · rw [hn] at hc; cases hc
+    have hstep : naStep h b n c' (nueSt o t) = .cont (n + 1) (nmSt o (t - o)) := by
+      rw [stepA_nue_tok h b n c' _ rfl (isTok1_iff.2 ⟨htk, h42⟩)]; rfl
+    rw [runLoop_cont (naMachine h) hn (by exact hstep), if_pos (by omega)]
+    exact n3_tailq_run h b o (t - o) H'
+  · obtain ⟨c0, hc0, hl0⟩ := hl'.first hlt'
+    rw [hn] at hc0; cases hc0
+    rw [hcl] at hl0; cases hl0
+  · have := hq.le
+    have hstep : naStep h b n 34 (nueSt o t) = .cont (n + 1) ({ v := ⟨o, t - o⟩, s := o, state := .quoted } : PFromBody) := by
+      rw [stepA_nue_quote h b n _ rfl]; rfl
+    rw [runLoop_cont (naMachine h) hc (by exact hstep), if_pos (by omega), na_name_quoted h b o (t - o) hq]
+    exact n3_tailq_run h b o (t - o) H'
+
+/-- the part of a value in front of a quoted string of the display name that opens at `k`: nothing; a closed quoted string
+    and more name; a token immediately followed by the quote; a token, white space and more name -/
+inductive NqNameOpen (b : Buf) (o : Nat) : Nat → Prop
+  | first : b[o]? = some 34 → NqNameOpen b o o
+  | afterQ (k1 k : Nat) : b[o]? = some 34 → NaQBody b (o + 1) k1 → NqTailQ b (k1 + 1) k → NqNameOpen b o k
+  | tokQ (t : Nat) (c : UInt8) : b[o]? = some c → isTok1 c = true → Run isTokch b (o + 1) t → o + 1 ≤ t →
+      b[t]? = some 34 → NqNameOpen b o t
+  | tok (t n k : Nat) (c c' : UInt8) : b[o]? = some c → isTok1 c = true → Run isTokch b (o + 1) t → o + 1 ≤ t →
+      Lws b t n → t < n → b[n]? = some c' → isLWSch c' = false → (c' == 42) = false → NqTailQ b n k → NqNameOpen b o k
+
+theorem NqNameOpen.run (h : Nat) {b : Buf} {o k : Nat} (H : NqNameOpen b o k) (hfit : b.size ≤ 65535) :
+    o ≤ k ∧ ∃ x, runLoop (naMachine h) b o {} = runLoop (naMachine h) b (k + 1) (nqQSt o x) := by
+  rcases H with h0 | ⟨k1, _, h0, hq, ht⟩ | ⟨t, c, h0, h1, hr, hot, ht⟩ | ⟨t, n, _, c, c', h0, h1, hr, hot, hl, hlt, hn, hcl, h42, ht⟩
+  · refine ⟨Nat.le_refl _, 0, ?_⟩
+    have hsz := get?_lt h0
+    have hstep : naStep h b o 34 {} = .cont (o + 1) (nqQSt o 0) := by
+      rw [stepA_init_quote h b o {} rfl]
+      unfold PFromBody.setV nqQSt
+      simp only [set_eq o o (Nat.le_refl _) (by omega), setPanics_false o o (Nat.le_refl _), Nat.sub_self]
+      rfl
+    exact (runLoop_cont (naMachine h) h0 (by exact hstep)).trans (if_pos (by omega))
+  · have := hq.le; have := ht.le
+    refine ⟨by omega, 0, ?_⟩
+    have hsz := get?_lt h0
+    have hstep : naStep h b o 34 {} = .cont (o + 1) ({ v := ⟨o, 0⟩, s := o, state := .quoted } : PFromBody) := by
+      rw [stepA_init_quote h b o {} rfl]
+      unfold PFromBody.setV
+      simp only [set_eq o o (Nat.le_refl _) (by omega), setPanics_false o o (Nat.le_refl _), Nat.sub_self]
+      rfl
+    rw [runLoop_cont (naMachine h) h0 (by exact hstep), if_pos (by omega), na_name_quoted h b o 0 hq]
+    exact n3_tailq_run h b o 0 ht
+  · refine ⟨by omega, 0, ?_⟩
+    rw [na_tok_run h b o k hfit h0 h1 hr hot]
+    have hstep : naStep h b k 34 (nuSt o) = .cont (k + 1) (nqQSt o 0) := by
+      rw [n3_stepA_nu_quote h b k _ rfl]; rfl
+    exact (runLoop_cont (naMachine h) ht (by exact hstep)).trans (if_pos (by omega))
+  · have := ht.le
+    refine ⟨by omega, t - o, ?_⟩
+    rw [na_tok_run h b o t hfit h0 h1 hr hot, na_nu_lws h b o t n hfit (by omega) hl hlt hn hcl]
+    exact n3_nue_tailq h b o t ht hn hcl h42
+
+theorem n3_isQ_nqQSt (o x : Nat) : IsQState (nqQSt o x).state := Or.inl rfl
+
+/-- **unterminated quoted string in the display name**: a quote opens at `k` (at the start of the value or after name
+    tokens / closed quoted strings) and the line ends before it is closed: verdict "bad header" (ErrHdrBad), the
+    returned offset is the one after the line end (it is NOT the offset of the quote), nothing but the start of the
+    value is recorded -/
+theorem n3_name_quote_unterminated (h : Nat) (b : Buf) (o k w p e : Nat) (hfit : b.size ≤ 65535)
+    (hpre : NqNameOpen b o k) (hq : NqQOpen b (k + 1) w) (hl : Lws b w p) (he : Eol b p e) {c2 : UInt8}
+    (h2 : b[e]? = some c2) (hw2 : isWS c2 = false) :
+    (∃ x, parseNameAddrPVal h b o {} = (e, .bad, { v := ⟨o, x⟩, state := .quoted })) ∧ o < e ∧ e ≤ b.size := by
+  obtain ⟨hok, x, hrun⟩ := hpre.run h hfit
+  have := hq.le; have := hl.le; have := he.gt; have := get?_lt h2
+  refine ⟨⟨x, ?_⟩, by omega, by omega⟩
+  have hloop : runLoop (naMachine h) b o {} = (e, .bad, nqQSt o x) := by
+    rw [hrun, n3_qopen_run h hq _ (n3_isQ_nqQSt o x)]
+    exact n3_q_eol h b _ (n3_isQ_nqQSt o x) hl he h2 hw2
+  rw [n3_parse_of_loop_err h b o hloop (Or.inr rfl)]
+  rfl
+
+/-- … and a backslash in front of the CR / LF inside it: "bad character" at the CR / LF -/
+theorem n3_name_quote_esc_crlf (h : Nat) (b : Buf) (o k w : Nat) (hfit : b.size ≤ 65535)
+    (hpre : NqNameOpen b o k) (hq : NqQOpen b (k + 1) w) (h0 : b[w]? = some 92) {c1 : UInt8} (h1 : b[w + 1]? = some c1)
+    (hc1 : isCRLFch c1 = true) :
+    (∃ x, parseNameAddrPVal h b o {} = (w + 1, .badChar, { v := ⟨o, x⟩, state := .quoted })) ∧ o < w + 1 ∧ w + 1 < b.size := by
+  obtain ⟨hok, x, hrun⟩ := hpre.run h hfit
+  have := hq.le; have := get?_lt h1
+  refine ⟨⟨x, ?_⟩, by omega, by omega⟩
+  have hloop : runLoop (naMachine h) b o {} = (w + 1, .badChar, nqQSt o x) := by
+    rw [hrun, n3_qopen_run h hq _ (n3_isQ_nqQSt o x)]
+    exact n3_q_esc_crlf h b _ (n3_isQ_nqQSt o x) h0 h1 hc1
+  rw [n3_parse_of_loop_err h b o hloop (Or.inl rfl)]
+  rfl
+
+
+/-! #### ill-formed parameters -/
+
+/-- the front part of a value up to its first `;` at `m`: `[display-name] <uri> [LWS] ;` or `bare-uri [LWS] ;` -/
+inductive NqHeadP (b : Buf) (o : Nat) : Nat → Prop
+  | bracket (a g m : Nat) (nm : PField) : AddrPrefix b o nm a → Run isURIch b (a + 1) g → a + 1 ≤ g → b[g]? = some 62 →
+      Lws b (g + 1) m → b[m]? = some 59 → NqHeadP b o m
+  | bare (t m : Nat) (c : UInt8) : b[o]? = some c → isTok1 c = true → Run isTokch b (o + 1) t → o + 1 ≤ t → Lws b t m →
+      b[m]? = some 59 → NqHeadP b o m
+
+theorem NqHeadP.run (h : Nat) {b : Buf} {o m : Nat} (H : NqHeadP b o m) (hfit : b.size ≤ 65535) :
+    o < m ∧ ∃ q base, runLoop (naMachine h) b o {} = runLoop (naMachine h) b (m + 1) (pst base (stNP q) 0 0 0 0 0 {}) := by
+  rcases H with ⟨a, g, _, nm, hp, hu, hag, hg, hl, hm⟩ | ⟨t, _, c, hc, h1, hr, hot, hl, hm⟩
+  · obtain ⟨hoa, x, hrun⟩ := hp.run h hfit
+    have := hl.le
+    refine ⟨by omega, false, { ufBase nm o a g with s := 0 }, ?_⟩
+    rw [hrun, na_uri_to_uf h b nm o x a g hoa hag hu hg hfit, na_uf_sep h b _ rfl hl hm]
+    rfl
+  · have := hl.le
+    obtain ⟨x, s', hsep⟩ := na_nu_sep h b o t m hfit (by omega) hl hm
+    refine ⟨by omega, true, bareBase o t x s', ?_⟩
+    rw [na_tok_run h b o t hfit hc h1 hr hot, hsep]
+
+/-- zero or more parameters of the old grammar, each followed by optional white space and `;`; `j` = the byte after the
+    last `;` -/
+inductive NqSeps (b : Buf) : Nat → List PSpan → Nat → Prop
+  | nil (i : Nat) : NqSeps b i [] i
+  | cons (i w m j : Nat) (x : PSpan) (L : List PSpan) : ParamAt b i x w → Lws b w m → b[m]? = some 59 →
+      NqSeps b (m + 1) L j → NqSeps b i (x :: L) j
+
+theorem NqSeps.le {b : Buf} {i j : Nat} {L : List PSpan} (H : NqSeps b i L j) : i ≤ j := by
+  induction H with
+  | nil i => exact Nat.le_refl _
+  | cons i w m j x L hx hl _ _ ih => have := hx.bounds; have := hl.le; omega
+
+theorem n3_seps_run (h : Nat) (b : Buf) (q : Bool) (base : PFromBody) (hfit : b.size ≤ 65535) {i j : Nat}
+    {L : List PSpan} (H : NqSeps b i L j) :
+    ∀ (po : Nat) (a : PAcc), 0 < i →
+      runLoop (naMachine h) b i (pst base (stNP q) po 0 0 0 0 a) =
+        runLoop (naMachine h) b j (pst base (stNP q) (firstPs po L) 0 0 0 0 (accAll b L a)) := by
+  induction H with
+  | nil i => intro po a _; rfl
+  | cons i w m j x L hx hl hm _ ih =>
+    intro po a h0
+    have hb := hx.bounds
+    have hne : poNext po x.ps ≠ 0 := by unfold poNext; split <;> omega
+    rw [na_param_sep h b q base po a hx hl hm h0 hfit, ih _ _ (by omega), n2_firstPs_idem _ L hne]
+    rfl
+
+/-- offset and verdict of the call are those of the loop -/
+theorem n3_parse_fst_snd (h : Nat) (b : Buf) (o : Nat) {o' : Nat} {e : Err} {st : PFromBody}
+    (hr : runLoop (naMachine h) b o {} = (o', e, st)) :
+    (parseNameAddrPVal h b o {}).1 = o' ∧ (parseNameAddrPVal h b o {}).2.1 = e := by
+  unfold parseNameAddrPVal
+  rw [if_neg (by decide)]
+  show (runLoop (naMachine h) b o {}).1 = o' ∧ (runLoop (naMachine h) b o {}).2.1 = e
+  rw [hr]; exact ⟨rfl, rfl⟩
+
+theorem n3_stepNP_bad (h : Nat) (b : Buf) (i : Nat) (c : UInt8) (pf : PFromBody) (q : Bool) (hst : pf.state = stNP q)
+    (hc : c = 60 ∨ c = 62) : naStep h b i c pf = .done i .badChar pf := by
+  cases q <;>
+  · simp only [stNP] at hst
+    unfold naStep; simp only [hst]
+    unfold naStepP
+    rcases hc with rfl | rfl <;> simp +decide only [↓reduceIte]
+
+theorem n3_stepPN_bad (h : Nat) (b : Buf) (i : Nat) (c : UInt8) (pf : PFromBody) (q : Bool) (hst : pf.state = stPN q)
+    (hc : c = 60 ∨ c = 62) : naStep h b i c pf = .done i .badChar pf := by
+  cases q <;>
+  · simp only [stPN] at hst
+    unfold naStep; simp only [hst]
+    unfold naStepP
+    rcases hc with rfl | rfl <;> simp +decide only [↓reduceIte]
+
+theorem n3_stepNV_bad (h : Nat) (b : Buf) (i : Nat) (c : UInt8) (pf : PFromBody) (q : Bool) (hst : pf.state = stNV q)
+    (hc : c = 61 ∨ c = 60 ∨ c = 62) : naStep h b i c pf = .done i .badChar pf := by
+  cases q <;>
+  · simp only [stNV] at hst
+    unfold naStep; simp only [hst]
+    unfold naStepV
+    rcases hc with rfl | rfl | rfl <;> simp +decide only [↓reduceIte]
+
+theorem n3_stepPV_bad (h : Nat) (b : Buf) (i : Nat) (c : UInt8) (pf : PFromBody) (q : Bool) (hst : pf.state = stPV q)
+    (hc : c = 61 ∨ c = 60 ∨ c = 62) : naStep h b i c pf = .done i .badChar pf := by
+  cases q <;>
+  · simp only [stPV] at hst
+    unfold naStep; simp only [hst]
+    unfold naStepV
+    rcases hc with rfl | rfl | rfl <;> simp +decide only [↓reduceIte]
+
+/-- **`<` or `>` where a parameter name is expected or inside a parameter name** (after any number of well-formed
+    parameters): "bad character" at that byte -/
+theorem n3_param_name_bad (h : Nat) (b : Buf) (o m j ps k : Nat) (L : List PSpan) (hfit : b.size ≤ 65535)
+    (hh : NqHeadP b o m) (hs : NqSeps b (m + 1) L j) (hl : Lws b j ps) (hn : Run isPNch b ps k) (hpk : ps ≤ k)
+    {c : UInt8} (hk : b[k]? = some c) (hc : c = 60 ∨ c = 62) :
+    (parseNameAddrPVal h b o {}).1 = k ∧ (parseNameAddrPVal h b o {}).2.1 = .badChar ∧ o < k ∧ k < b.size := by
+  obtain ⟨hom, q, base, hrun⟩ := hh.run h hfit
+  have := hs.le; have := hl.le
+  have hcl : isLWSch c = false := by rcases hc with rfl | rfl <;> decide
+  have hloop : ∃ st, runLoop (naMachine h) b o {} = (k, .badChar, st) := by
+    rw [hrun, n3_seps_run h b q base hfit hs 0 {} (by omega)]
+    by_cases hlt : ps < k
+    · rw [na_pname_run h b q base _ _ j ps k hl hn hlt (by omega) hfit]
+      exact ⟨_, runLoop_done (naMachine h) hk (by exact n3_stepPN_bad h b k c _ q rfl hc)⟩
+    · have hpk' : ps = k := by omega
+      subst hpk'
+      have hskip : runLoop (naMachine h) b j (pst base (stNP q) (firstPs 0 L) 0 0 0 0 (accAll b L {})) =
+          runLoop (naMachine h) b ps (pst base (stNP q) (firstPs 0 L) 0 0 0 0 (accAll b L {})) := by
+        by_cases h1 : j < ps
+        · obtain ⟨c0, hc0, hl0⟩ := hl.first h1
+          rw [runLoop_cont (naMachine h) hc0 (by exact stepNP_lws h b j ps c0 _ q rfl hl0 (skipLWS_of_lws hl hk hcl)),
+            if_pos h1]
+        · have : j = ps := by omega
+          rw [this]
+      rw [hskip]
+      exact ⟨_, runLoop_done (naMachine h) hk (by exact n3_stepNP_bad h b ps c _ q rfl hc)⟩
+  obtain ⟨st, hloop⟩ := hloop
+  obtain ⟨r1, r2⟩ := n3_parse_fst_snd h b o hloop
+  exact ⟨r1, r2, by omega, get?_lt hk⟩
+
+/-- the parameter `name [LWS] = [LWS]` and the beginning of its value up to `k` (nothing, or a well-formed value) -/
+def NqValPre (b : Buf) (i ps pe vs k : Nat) : Prop :=
+  ∃ eq, Lws b i ps ∧ Run isPNch b ps pe ∧ ps < pe ∧ Lws b pe eq ∧ b[eq]? = some 61 ∧ Lws b (eq + 1) vs ∧
+    (vs = k ∨ PVal b vs k)
+
+/-- the run up to `k`: the automaton is at the start of the value or inside it -/
+theorem n3_valpre_run (h : Nat) (b : Buf) (q : Bool) (base : PFromBody) (po : Nat) (a : PAcc) (hfit : b.size ≤ 65535)
+    {i ps pe vs k : Nat} (H : NqValPre b i ps pe vs k) (h0 : 0 < i) {c : UInt8} (hk : b[k]? = some c)
+    (hcl : isLWSch c = false) :
+    i ≤ k ∧ ∃ st vs', (st = stNV q ∨ st = stPV q) ∧
+      runLoop (naMachine h) b i (pst base (stNP q) po 0 0 0 0 a) =
+        runLoop (naMachine h) b k (pst base st (poNext po ps) ps pe vs' 0 a) ∧ (st = stNV q → vs = k) := by
+  obtain ⟨eq, hl, hn, hlt, hl2, heq, hl3, hv⟩ := H
+  have := hl.le; have := hl2.le; have := hl3.le
+  rcases hv with rfl | hv
+  · refine ⟨by omega, stNV q, vs, Or.inl rfl, ?_, fun _ => rfl⟩
+    rw [na_pname_run h b q base po a i ps pe hl hn hlt (by omega) hfit,
+      na_peq_run h b q base _ ps pe eq vs a hl2 heq hl3 hk hcl]
+  · obtain ⟨c1, hc1, hcl1⟩ := hv.first
+    have := hv.lt
+    refine ⟨by omega, stPV q, vs, Or.inr rfl, ?_, fun hst => ?_⟩
+    · rw [na_pname_run h b q base po a i ps pe hl hn hlt (by omega) hfit,
+        na_peq_run h b q base _ ps pe eq vs a hl2 heq hl3 hc1 hcl1, na_pval_run h hv q base _ ps pe vs a]
+    · cases q <;> cases hst
+
+/-- **`=`, `<` or `>` inside (or in place of) a parameter value**: "bad character" at that byte -/
+theorem n3_param_value_bad (h : Nat) (b : Buf) (o m j ps pe vs k : Nat) (L : List PSpan) (hfit : b.size ≤ 65535)
+    (hh : NqHeadP b o m) (hs : NqSeps b (m + 1) L j) (hv : NqValPre b j ps pe vs k)
+    {c : UInt8} (hk : b[k]? = some c) (hc : c = 61 ∨ c = 60 ∨ c = 62) :
+    (parseNameAddrPVal h b o {}).1 = k ∧ (parseNameAddrPVal h b o {}).2.1 = .badChar ∧ o < k ∧ k < b.size := by
+  obtain ⟨hom, q, base, hrun⟩ := hh.run h hfit
+  have := hs.le
+  have hcl : isLWSch c = false := by rcases hc with rfl | rfl | rfl <;> decide
+  obtain ⟨hjk, st, vs', hst, hrun2, _⟩ := n3_valpre_run h b q base (firstPs 0 L) (accAll b L {}) hfit hv (by omega) hk hcl
+  have hloop : ∃ st', runLoop (naMachine h) b o {} = (k, .badChar, st') := by
+    rw [hrun, n3_seps_run h b q base hfit hs 0 {} (by omega), hrun2]
+    rcases hst with rfl | rfl
+    · exact ⟨_, runLoop_done (naMachine h) hk (by exact n3_stepNV_bad h b k c _ q rfl hc)⟩
+    · exact ⟨_, runLoop_done (naMachine h) hk (by exact n3_stepPV_bad h b k c _ q rfl hc)⟩
+  obtain ⟨st', hloop⟩ := hloop
+  obtain ⟨r1, r2⟩ := n3_parse_fst_snd h b o hloop
+  exact ⟨r1, r2, by omega, get?_lt hk⟩
+
+/-- **unterminated quoted string in a parameter value** (the quote opens at `k`, at the start of the value or after
+    well-formed value text): verdict "bad header" (ErrHdrBad), offset after the line end -/
+theorem n3_param_quote_unterminated (h : Nat) (b : Buf) (o m j ps pe vs k w p e : Nat) (L : List PSpan)
+    (hfit : b.size ≤ 65535) (hh : NqHeadP b o m) (hs : NqSeps b (m + 1) L j) (hv : NqValPre b j ps pe vs k)
+    (hk : b[k]? = some 34) (hq : NqQOpen b (k + 1) w) (hl : Lws b w p) (he : Eol b p e) {c2 : UInt8}
+    (h2 : b[e]? = some c2) (hw2 : isWS c2 = false) :
+    (parseNameAddrPVal h b o {}).1 = e ∧ (parseNameAddrPVal h b o {}).2.1 = .bad ∧ o < e ∧ e ≤ b.size := by
+  obtain ⟨hom, q, base, hrun⟩ := hh.run h hfit
+  have := hs.le; have := hq.le; have := hl.le; have := he.gt; have := get?_lt h2
+  obtain ⟨hjk, st, vs', hst, hrun2, _⟩ :=
+    n3_valpre_run h b q base (firstPs 0 L) (accAll b L {}) hfit hv (by omega) hk (by decide)
+  have hloop : ∃ st', runLoop (naMachine h) b o {} = (e, .bad, st') := by
+    rw [hrun, n3_seps_run h b q base hfit hs 0 {} (by omega), hrun2]
+    rcases hst with rfl | rfl
+    · rw [runLoop_cont (naMachine h) hk (by exact stepNV_quote h b k _ q rfl), if_pos (by omega),
+        n3_qopen_run h hq _ (stQV_isQ q)]
+      exact ⟨_, n3_q_eol h b _ (stQV_isQ q) hl he h2 hw2⟩
+    · rw [runLoop_cont (naMachine h) hk (by exact stepPV_quote h b k _ q rfl), if_pos (by omega),
+        n3_qopen_run h hq _ (stQV_isQ q)]
+      exact ⟨_, n3_q_eol h b _ (stQV_isQ q) hl he h2 hw2⟩
+  obtain ⟨st', hloop⟩ := hloop
+  obtain ⟨r1, r2⟩ := n3_parse_fst_snd h b o hloop
+  exact ⟨r1, r2, by omega, by omega⟩
+
+
+/-! #### non-vacuity and tests for (3) -/
+
+/-- `Bob <sip:a` CR LF: the hypotheses of `n3_uri_unterminated` are satisfiable; "bad character" at the CR (offset 10) -/
+example : ∃ x, parseNameAddrPVal HdrFrom "Bob <sip:a\r\nX".toUTF8.data 0 {} =
+    (10, .badChar, { name := ⟨0, 4⟩, v := ⟨0, x⟩, state := .uri }) :=
+  (n3_uri_unterminated HdrFrom "Bob <sip:a\r\nX".toUTF8.data 0 4 10 ⟨0, 4 - 0⟩ (by decide)
+    (.token 3 4 4 66 60 (by decide) (by decide) (run_of_check (by decide)) (by decide)
+      (.ws 3 4 32 (by decide) (by decide) (.nil 4)) (by decide) (by decide) (by decide) (by decide) (.done 4 (by decide)))
+    (run_of_check (by decide)) (by decide) (c := 13) (by decide) (Or.inr (by decide))).1
+
+/-- `A "B c` CR LF: the hypotheses of `n3_name_quote_unterminated` are satisfiable; "bad header", offset 8 (after CR LF) -/
+example : ∃ x, parseNameAddrPVal HdrFrom "A \"B c\r\nX".toUTF8.data 0 {} = (8, .bad, { v := ⟨0, x⟩, state := .quoted }) :=
+  (n3_name_quote_unterminated HdrFrom "A \"B c\r\nX".toUTF8.data 0 2 6 6 8 (by decide)
+    (.tok 1 2 2 65 34 (by decide) (by decide) (run_of_check (by decide)) (by decide)
+      (.ws 1 2 32 (by decide) (by decide) (.nil 2)) (by decide) (by decide) (by decide) (by decide) (.opn 2 (by decide)))
+    (.ch 3 6 66 (by decide) (by decide)
+      (.lws 4 5 6 99 (.ws 4 5 32 (by decide) (by decide) (.nil 5)) (by decide) (by decide) (by decide)
+        (.ch 5 6 99 (by decide) (by decide) (.nil 6))))
+    (.nil 6) (.crlf 6 (by decide) (by decide)) (c2 := 88) (by decide) (by decide)).1
+
+/-- `<a>;x;y<` : the hypotheses of `n3_param_name_bad` are satisfiable; "bad character" at offset 7 -/
+example : (parseNameAddrPVal HdrFrom "<a>;x;y<\r\nX".toUTF8.data 0 {}).1 = 7 ∧
+    (parseNameAddrPVal HdrFrom "<a>;x;y<\r\nX".toUTF8.data 0 {}).2.1 = .badChar ∧ 0 < 7 ∧
+    7 < "<a>;x;y<\r\nX".toUTF8.data.size :=
+  n3_param_name_bad HdrFrom "<a>;x;y<\r\nX".toUTF8.data 0 3 6 6 7 [⟨4, 5, 0, 0⟩] (by decide)
+    (.bracket 0 2 3 {} (.none (by decide)) (run_of_check (by decide)) (by decide) (by decide) (.nil 3) (by decide))
+    (.cons 4 5 5 6 _ _ (.flag 4 5 (.nil 4) (run_of_check (by decide)) (by decide)) (.nil 5) (by decide) (.nil 6))
+    (.nil 6) (run_of_check (by decide)) (by decide) (c := 60) (by decide) (Or.inl rfl)
+
+/-- `a:b;t=x=` : the hypotheses of `n3_param_value_bad` are satisfiable (bare URI); "bad character" at offset 7 -/
+example : (parseNameAddrPVal HdrTo "a:b;t=x=\r\nX".toUTF8.data 0 {}).1 = 7 ∧
+    (parseNameAddrPVal HdrTo "a:b;t=x=\r\nX".toUTF8.data 0 {}).2.1 = .badChar ∧ 0 < 7 ∧
+    7 < "a:b;t=x=\r\nX".toUTF8.data.size :=
+  n3_param_value_bad HdrTo "a:b;t=x=\r\nX".toUTF8.data 0 3 4 4 5 6 7 [] (by decide)
+    (.bare 3 3 97 (by decide) (by decide) (run_of_check (by decide)) (by decide) (.nil 3) (by decide))
+    (.nil 4)
+    ⟨5, .nil 4, run_of_check (by decide), by decide, .nil 5, by decide, .nil 6, Or.inr (Or.inl ⟨120, by decide, by decide, .nil 7⟩)⟩
+    (c := 61) (by decide) (Or.inl rfl)
+
+/-- `<a>;t="x` CR LF: the hypotheses of `n3_param_quote_unterminated` are satisfiable; "bad header", offset 10 -/
+example : (parseNameAddrPVal HdrContact "<a>;t=\"x\r\nX".toUTF8.data 0 {}).1 = 10 ∧
+    (parseNameAddrPVal HdrContact "<a>;t=\"x\r\nX".toUTF8.data 0 {}).2.1 = .bad ∧ 0 < 10 ∧
+    10 ≤ "<a>;t=\"x\r\nX".toUTF8.data.size :=
+  n3_param_quote_unterminated HdrContact "<a>;t=\"x\r\nX".toUTF8.data 0 3 4 4 5 6 6 8 8 10 [] (by decide)
+    (.bracket 0 2 3 {} (.none (by decide)) (run_of_check (by decide)) (by decide) (by decide) (.nil 3) (by decide))
+    (.nil 4) ⟨5, .nil 4, run_of_check (by decide), by decide, .nil 5, by decide, .nil 6, Or.inl rfl⟩
+    (by decide) (.ch 7 8 120 (by decide) (by decide) (.nil 8)) (.nil 8) (.crlf 8 (by decide) (by decide)) (c2 := 88)
+    (by decide) (by decide)
+
+/-- test (evaluation): `<>` is accepted with an empty URI -/
+example : parseNameAddrPVal HdrFrom "<>\r\nX".toUTF8.data 0 {} =
+    (4, .ok, { uri := ⟨1, 0⟩, v := ⟨0, 2⟩, type := HdrFrom, state := .fin }) := by decide +kernel
+
+
+/-! ## (4) bytes after `>` that are ignored; the comma in the single-valued header kinds (From / To) -/
+
+theorem n4_stepUF_other (h : Nat) (b : Buf) (i : Nat) (c : UInt8) (pf : PFromBody) (hst : pf.state = .uriFound)
+    (hc : isLWSch c = false) (h59 : (c == 59) = false) (h44 : c = 44 → multipleValsOk h = false) :
+    naStep h b i c pf = .cont (i + 1) pf := by
+  unfold naStep; simp only [hst]
+  unfold naStepUF
+  by_cases hcm : c = 44
+  · subst hcm
+    simp +decide only [h44 rfl, Bool.false_eq_true, ↓reduceIte]
+  · have : (c == 44) = false := by simpa using hcm
+    simp only [hc, this, h59, Bool.false_eq_true, ↓reduceIte]
+
+/-- bytes between `>` and the `;` / the end of the value that the parser skips without looking at them: any byte other
+    than `;`, white space, line ends — and other than `,` for the header kinds that take several values — and linear
+    white space in front of such a byte -/
+inductive NqJunk (h : Nat) (b : Buf) : Nat → Nat → Prop
+  | nil (i : Nat) : NqJunk h b i i
+  | ch (i j : Nat) (c : UInt8) : b[i]? = some c → isLWSch c = false → (c == 59) = false →
+      (c = 44 → multipleValsOk h = false) → NqJunk h b (i + 1) j → NqJunk h b i j
+  | lws (i n j : Nat) (c : UInt8) : Lws b i n → i < n → b[n]? = some c → isLWSch c = false → NqJunk h b n j →
+      NqJunk h b i j
+
+theorem NqJunk.le {h : Nat} {b : Buf} {i j : Nat} (H : NqJunk h b i j) : i ≤ j := by
+  induction H with
+  | nil i => exact Nat.le_refl _
+  | ch i j c _ _ _ _ _ ih => omega
+  | lws i n j c _ _ _ _ _ ih => omega
+
+theorem n4_junk_run (h : Nat) {b : Buf} {i j : Nat} (H : NqJunk h b i j) (pf : PFromBody) (hst : pf.state = .uriFound) :
+    runLoop (naMachine h) b i pf = runLoop (naMachine h) b j pf := by
+  induction H with
+  | nil i => rfl
+  | ch i j c hc hcl h59 h44 _ ih =>
+    rw [runLoop_cont (naMachine h) hc (by exact n4_stepUF_other h b i c pf hst hcl h59 h44), if_pos (by omega)]
+    exact ih
+  | lws i n j c hl hlt hn hcl _ ih =>
+    rw [na_skip_lws h b pf hl hn hcl (fun c' hc' => stepUF_lws h b i c' pf hst hc')]
+    exact ih
+
+/-- **`[display-name] <uri>` followed by ignored bytes** and the end of the value: accepted exactly like `<uri>` alone;
+    the ignored bytes are in no reported span (the value ends at the `>`). A second `<…>` after the first is such a
+    run of ignored bytes. -/
+theorem n4_bracket_junk (h : Nat) (b : Buf) (o a g w o' : Nat) (e' : Err) (nm : PField) (hfit : b.size ≤ 65535)
+    (hp : AddrPrefix b o nm a) (hu : Run isURIch b (a + 1) g) (hag : a + 1 ≤ g) (hg : b[g]? = some 62)
+    (hj : NqJunk h b (g + 1) w) (T : Term h b w o' e') :
+    parseNameAddrPVal h b o {} = (o', e', naResult h nm ⟨a + 1, g - (a + 1)⟩ {} ⟨o, g + 1 - o⟩ {}) := by
+  obtain ⟨hoa, x, hrun⟩ := hp.run h hfit
+  have hloop : runLoop (naMachine h) b o {} =
+      (o', e', { ufBase nm o a g with state := .fin, soffs := 0, type := h }) := by
+    rw [hrun, na_uri_to_uf h b nm o x a g hoa hag hu hg hfit, n4_junk_run h hj _ rfl]
+    exact na_uf_term h b _ rfl T
+  rw [parse_of_loop h b o hloop T.complete]
+  rfl
+
+/-- … and then `;` and a (generalised) parameter list: the parameters are attached to the FIRST `<uri>`; the reported
+    value then covers the ignored bytes -/
+theorem n4_bracket_junk_params (h : Nat) (b : Buf) (o a g w m ve o' : Nat) (e' : Err) (nm : PField) (L : List PSpan)
+    (hfit : b.size ≤ 65535) (hp : AddrPrefix b o nm a) (hu : Run isURIch b (a + 1) g) (hag : a + 1 ≤ g)
+    (hg : b[g]? = some 62) (hj : NqJunk h b (g + 1) w) (hl : Lws b w m) (hm : b[m]? = some 59)
+    (hL : NqParams h b (m + 1) L ve o' e') :
+    parseNameAddrPVal h b o {} =
+      (o', e', naResult h nm ⟨a + 1, g - (a + 1)⟩ (nqSpan (firstPs 0 L) ve) ⟨o, ve - o⟩ (accAll b L {})) := by
+  obtain ⟨hoa, x, hrun⟩ := hp.run h hfit
+  obtain ⟨hb1, hb2, hb3, hb4, hb5⟩ := hL.bounds
+  have hle := hl.le; have hjl := hj.le
+  have hpo : firstPs 0 L ≤ ve := by
+    rcases hb5 with h5 | h5
+    · rw [h5]; exact Nat.zero_le _
+    · omega
+  have hloop : runLoop (naMachine h) b o {} =
+      (o', e', nqFin h { ufBase nm o a g with s := 0 } (firstPs 0 L) ve (accAll b L {})) := by
+    rw [hrun, na_uri_to_uf h b nm o x a g hoa hag hu hg hfit, n4_junk_run h hj _ rfl, na_uf_sep h b _ rfl hl hm]
+    exact n2_params_run h b false { ufBase nm o a g with s := 0 } hfit hL 0 {} (by omega)
+  rw [parse_of_loop h b o hloop hb4]
+  rw [n2_nqFin_result h _ (firstPs 0 L) ve _ rfl rfl rfl (by show o ≤ ve; omega) hpo (by omega)]
+  rfl
+
+theorem n4_single_from_to : multipleValsOk HdrFrom = false ∧ multipleValsOk HdrTo = false := by decide
+
+/-- **From / To: a comma after `<uri>` is NOT a separator and NOT an error**: `<uri> [LWS] , anything-without-";"` up to
+    the line end is accepted and reported exactly as `<uri>` alone — the second value is silently ignored
+    (e.g. `From: <sip:a@b>, <sip:c@d>`) -/
+theorem n4_single_comma_ignored (h : Nat) (b : Buf) (o a g m w p e : Nat) (nm : PField) (hfit : b.size ≤ 65535)
+    (hmv : multipleValsOk h = false) (hp : AddrPrefix b o nm a) (hu : Run isURIch b (a + 1) g) (hag : a + 1 ≤ g)
+    (hg : b[g]? = some 62) (hl : Lws b (g + 1) m) (hm : b[m]? = some 44) (hj : NqJunk h b (m + 1) w)
+    (hl2 : Lws b w p) (he : Eol b p e) {c2 : UInt8} (h2 : b[e]? = some c2) (hw2 : isWS c2 = false) :
+    parseNameAddrPVal h b o {} = (e, .ok, naResult h nm ⟨a + 1, g - (a + 1)⟩ {} ⟨o, g + 1 - o⟩ {}) := by
+  have hle := hl.le
+  have hj' : NqJunk h b (g + 1) w := by
+    have hc : NqJunk h b m w := .ch m w 44 hm (by decide) (by decide) (fun _ => hmv) hj
+    by_cases h1 : g + 1 < m
+    · exact .lws (g + 1) m w 44 hl h1 hm (by decide) hc
+    · have : g + 1 = m := by omega
+      rw [this]; exact hc
+  exact n4_bracket_junk h b o a g w e .ok nm hfit hp hu hag hg hj' (.eol p e c2 hl2 he h2 hw2)
+
+/-! #### bare URI in a single-valued header kind: the comma is an ordinary byte -/
+
+/-- a byte of a bare URI for the single-valued header kinds: a token byte or a comma -/
+def isTokchS (c : UInt8) : Bool := isTokch c || c == 44
+
+theorem n4_stepA_nu_tokS (h : Nat) (b : Buf) (i : Nat) (c : UInt8) (pf : PFromBody) (hst : pf.state = .nameOrURI)
+    (hmv : multipleValsOk h = false) (hc : isTokchS c = true) : naStep h b i c pf = .cont (i + 1) pf := by
+  unfold isTokchS at hc
+  by_cases hcm : c = 44
+  · subst hcm
+    unfold naStep; simp only [hst]
+    unfold naStepA
+    simp +decide only [hmv, Bool.false_eq_true, ↓reduceIte]
+  · have h44 : (c == 44) = false := by simpa using hcm
+    rw [h44, Bool.or_false] at hc
+    exact stepA_nu_tok h b i c pf hst hc
+
+/-- **From / To with a bare URI: commas inside it belong to the URI** (`From: sip:a@b,sip:c@d` reports the one URI
+    `sip:a@b,sip:c@d`) -/
+theorem n4_bare_comma (h : Nat) (b : Buf) (o t o' : Nat) (e' : Err) (hfit : b.size ≤ 65535)
+    (hmv : multipleValsOk h = false) {c : UInt8} (hc : b[o]? = some c) (h1 : isTok1 c = true)
+    (hr : Run isTokchS b (o + 1) t) (hot : o + 1 ≤ t) (T : Term h b t o' e') :
+    parseNameAddrPVal h b o {} = (o', e', naResult h {} ⟨o, t - o⟩ {} ⟨o, t - o⟩ {}) := by
+  have hsz := get?_lt hc
+  have hstep : naStep h b o c {} = .cont (o + 1) (nuSt o) := by
+    rw [stepA_init_tok h b o c {} rfl h1]
+    unfold nuSt PFromBody.setV
+    simp only [set_eq o o (Nat.le_refl _) (by omega), setPanics_false o o (Nat.le_refl _), Nat.sub_self]
+    rfl
+  have hloop : runLoop (naMachine h) b o {} = (o', e', { nueSt o t with state := .fin, soffs := 0, type := h }) := by
+    rw [runLoop_cont (naMachine h) hc (by exact hstep), if_pos (by omega),
+      runLoop_run (naMachine h) b isTokchS (nuSt o) (fun k c' _ hc' => n4_stepA_nu_tokS h b k c' (nuSt o) rfl hmv hc')
+        (o + 1) t hot hr]
+    exact na_nu_term h b o t hfit (by omega) T
+  rw [parse_of_loop h b o hloop T.complete]
+  rfl
+
+/-! #### non-vacuity and tests for (4) -/
+
+/-- `From: <a>, <b>` CR LF: the hypotheses of `n4_single_comma_ignored` are satisfiable -/
+example : parseNameAddrPVal HdrFrom "<a>, <b>\r\nX".toUTF8.data 0 {} =
+    (10, .ok, naResult HdrFrom {} ⟨1, 1⟩ {} ⟨0, 3⟩ {}) :=
+  n4_single_comma_ignored HdrFrom "<a>, <b>\r\nX".toUTF8.data 0 0 2 3 8 8 10 {} (by decide) (by decide)
+    (.none (by decide)) (run_of_check (by decide)) (by decide) (by decide) (.nil 3) (by decide)
+    (.lws 4 5 8 60 (.ws 4 5 32 (by decide) (by decide) (.nil 5)) (by decide) (by decide) (by decide)
+      (.ch 5 8 60 (by decide) (by decide) (by decide) (fun hc => by cases hc)
+        (.ch 6 8 98 (by decide) (by decide) (by decide) (fun hc => by cases hc)
+          (.ch 7 8 62 (by decide) (by decide) (by decide) (fun hc => by cases hc) (.nil 8)))))
+    (.nil 8) (.crlf 8 (by decide) (by decide)) (c2 := 88) (by decide) (by decide)
+
+/-- test (evaluation): To with two values — the tag of the SECOND value is reported with the URI of the FIRST -/
+example : parseNameAddrPVal HdrTo "<a>, <b>;tag=x\r\nX".toUTF8.data 0 {} =
+    (16, .ok, { uri := ⟨1, 1⟩, params := ⟨9, 5⟩, tag := ⟨13, 1⟩, v := ⟨0, 14⟩, type := HdrTo, state := .fin }) := by
+  decide +kernel
+
+/-- tests (evaluation): From with a bare URI: `a:b,c:d` is one URI; `a:b, c:d` is rejected ("bad header") -/
+example : parseNameAddrPVal HdrFrom "a:b,c:d\r\nX".toUTF8.data 0 {} =
+    (9, .ok, { uri := ⟨0, 7⟩, v := ⟨0, 7⟩, type := HdrFrom, state := .fin }) := by decide +kernel
+example : (parseNameAddrPVal HdrFrom "a:b, c:d\r\nX".toUTF8.data 0 {}).2.1 = .bad := by decide +kernel
+
+
+/-- the hypotheses of `n4_bare_comma` are satisfiable: `a:b,c:d` CR LF as a From value -/
+example : parseNameAddrPVal HdrFrom "a:b,c:d\r\nX".toUTF8.data 0 {} =
+    (9, .ok, naResult HdrFrom {} ⟨0, 7⟩ {} ⟨0, 7⟩ {}) :=
+  n4_bare_comma HdrFrom "a:b,c:d\r\nX".toUTF8.data 0 7 9 .ok (by decide) (by decide) (c := 97) (by decide) (by decide)
+    (run_of_check (by decide)) (by decide) (.eol 7 9 88 (.nil 7) (.crlf 7 (by decide) (by decide)) (by decide) (by decide))
+
+/-! #### From / To: a comma after a parameter and white space is rejected -/
+
+theorem n4_stepPNE_comma_single (h : Nat) (b : Buf) (i : Nat) (pf : PFromBody) (q : Bool) (hst : pf.state = stPNE q)
+    (hm : multipleValsOk h = false) : naStep h b i 44 pf = .done i .badChar pf := by
+  cases q <;>
+  · simp only [stPNE] at hst
+    unfold naStep; simp only [hst]
+    unfold naStepPE
+    simp +decide only [↓reduceIte]
+    unfold naCommaAfterWS
+    simp only [hm, Bool.false_eq_true, ↓reduceIte]
+
+theorem n4_stepPVE_comma_single (h : Nat) (b : Buf) (i : Nat) (pf : PFromBody) (q : Bool) (hst : pf.state = stPVE q)
+    (hm : multipleValsOk h = false) : naStep h b i 44 pf = .done i .badChar pf := by
+  cases q <;>
+  · simp only [stPVE] at hst
+    unfold naStep; simp only [hst]
+    unfold naStepVE
+    simp +decide only [↓reduceIte]
+    unfold naCommaAfterWS
+    simp only [hm, Bool.false_eq_true, ↓reduceIte]
+
+/-- **From / To: `… ;param [=value] LWS ,`** (a well-formed parameter, at least one byte of white space, a comma):
+    "bad character" at the comma — whereas the same comma WITHOUT white space in front of it is taken as a byte of the
+    parameter name / value -/
+theorem n4_single_comma_after_ws (h : Nat) (b : Buf) (o m j w k : Nat) (L : List PSpan) (x : PSpan)
+    (hfit : b.size ≤ 65535) (hmv : multipleValsOk h = false) (hh : NqHeadP b o m) (hs : NqSeps b (m + 1) L j)
+    (hx : ParamAt b j x w) (hl : Lws b w k) (hwk : w < k) (hk : b[k]? = some 44) :
+    (parseNameAddrPVal h b o {}).1 = k ∧ (parseNameAddrPVal h b o {}).2.1 = .badChar ∧ o < k ∧ k < b.size := by
+  obtain ⟨hom, q, base, hrun⟩ := hh.run h hfit
+  have := hs.le
+  have hbx := hx.bounds
+  obtain ⟨c0, hc0, hl0⟩ := hl.first hwk
+  have hsk := skipLWS_of_lws hl hk (by decide)
+  have hloop : ∃ st, runLoop (naMachine h) b o {} = (k, .badChar, st) := by
+    rw [hrun, n3_seps_run h b q base hfit hs 0 {} (by omega)]
+    rcases hx with ⟨ps, pe, h1, h2, h3⟩ | ⟨ps, pe, eq, vs, ve, h1, h2, h3, h4, h5, h6, h7⟩
+    · have := h1.le
+      rw [na_pname_run h b q base _ _ j ps w h1 h2 h3 (by omega) hfit,
+        runLoop_cont (naMachine h) hc0 (by exact stepPN_lws h b w k c0 _ q rfl hl0 hsk), if_pos hwk]
+      exact ⟨_, runLoop_done (naMachine h) hk (by exact n4_stepPNE_comma_single h b k _ q rfl hmv)⟩
+    · have := h1.le; have := h4.le; have := h6.le; have := h7.lt
+      obtain ⟨c, hc, hcl⟩ := h7.first
+      rw [na_pname_run h b q base _ _ j ps pe h1 h2 h3 (by omega) hfit,
+        na_peq_run h b q base _ ps pe eq vs _ h4 h5 h6 hc hcl, na_pval_run h h7 q base _ ps pe vs _,
+        runLoop_cont (naMachine h) hc0 (by exact stepPV_lws h b w k c0 _ q rfl hl0 hsk), if_pos hwk]
+      exact ⟨_, runLoop_done (naMachine h) hk (by exact n4_stepPVE_comma_single h b k _ q rfl hmv)⟩
+  obtain ⟨st, hloop⟩ := hloop
+  obtain ⟨r1, r2⟩ := n3_parse_fst_snd h b o hloop
+  exact ⟨r1, r2, by omega, get?_lt hk⟩
+
+/-- `From: <a>;tag=x ,` : the hypotheses of `n4_single_comma_after_ws` are satisfiable; "bad character" at offset 10 -/
+example : (parseNameAddrPVal HdrFrom "<a>;tag=x ,<b>\r\nX".toUTF8.data 0 {}).1 = 10 ∧
+    (parseNameAddrPVal HdrFrom "<a>;tag=x ,<b>\r\nX".toUTF8.data 0 {}).2.1 = .badChar ∧ 0 < 10 ∧
+    10 < "<a>;tag=x ,<b>\r\nX".toUTF8.data.size :=
+  n4_single_comma_after_ws HdrFrom "<a>;tag=x ,<b>\r\nX".toUTF8.data 0 3 4 9 10 [] ⟨4, 7, 8, 9⟩ (by decide) (by decide)
+    (.bracket 0 2 3 {} (.none (by decide)) (run_of_check (by decide)) (by decide) (by decide) (.nil 3) (by decide))
+    (.nil 4)
+    (.val 4 7 7 8 9 (.nil 4) (run_of_check (by decide)) (by decide) (.nil 7) (by decide) (.nil 8)
+      (Or.inl ⟨120, by decide, by decide, .nil 9⟩))
+    (.ws 9 10 32 (by decide) (by decide) (.nil 10)) (by decide) (by decide)
+
+/-- test (evaluation): without the white space the comma is a byte of the value: `From: <a>;tag=x,y` has tag `x,y` -/
+example : parseNameAddrPVal HdrFrom "<a>;tag=x,y\r\nX".toUTF8.data 0 {} =
+    (13, .ok, { uri := ⟨1, 1⟩, params := ⟨4, 7⟩, tag := ⟨8, 3⟩, v := ⟨0, 11⟩, type := HdrFrom, state := .fin }) := by
+  decide +kernel
+
+
 end Sipsp
